@@ -7,6 +7,7 @@ import Drx.Vwsc
 import Drx.VwscSpec
 import DrxProofs.Py
 import DrxProofs.Vwsc
+set_option linter.unusedVariables false
 namespace Drx.Vwsc
 open Drx Drx.Vwsc.Spec Drx.VwscLayout
 
@@ -17,18 +18,18 @@ theorem toSigned16_mod (n : Nat) (h : n < 65536) : toSigned 16 n % 65536 = (n : 
   split <;> omega
 
 /-- a signed 16-bit field laid out after `a` is read back by a generated field descriptor with that offset -/
-theorem raw_s16_at (a c : Bytes) (v : Int) (h : In16 v) (off : Nat) (hoff : off = a.length) :
-    (⟨off, .s16, .raw⟩ : Fld).raw (a ++ (encS .be 2 v ++ c)) = .ok v := by
+theorem raw_s16_at (p : Post) (a c : Bytes) (v : Int) (h : In16 v) (off : Nat) (hoff : off = a.length) :
+    (⟨off, .s16, p⟩ : Fld).raw (a ++ (encS .be 2 v ++ c)) = .ok v := by
   simp only [Fld.raw]; exact getS2_at a c v h off hoff
 
-theorem raw_u16_at (a c : Bytes) (n : Nat) (h : n < 65536) (off : Nat) (hoff : off = a.length) :
-    (⟨off, .s16, .raw⟩ : Fld).raw (a ++ (encU16 n ++ c)) = .ok (toSigned 16 n) := by
+theorem raw_u16_at (p : Post) (a c : Bytes) (n : Nat) (h : n < 65536) (off : Nat) (hoff : off = a.length) :
+    (⟨off, .s16, p⟩ : Fld).raw (a ++ (encU16 n ++ c)) = .ok (toSigned 16 n) := by
   simp only [Fld.raw, getS]
   rw [slice_mid a _ c off (off + 2) hoff (by simp [hoff])]
   simp [unpackS, encU16, ordNat_encOrd_of_lt .be 2 n (by omega)]
 
-theorem raw_u8_at (a c : Bytes) (b : UInt8) (off : Nat) (hoff : off = a.length) :
-    (⟨off, .u8, .raw⟩ : Fld).raw (a ++ (b :: c)) = .ok (b2i b) := by
+theorem raw_u8_at (p : Post) (a c : Bytes) (b : UInt8) (off : Nat) (hoff : off = a.length) :
+    (⟨off, .u8, p⟩ : Fld).raw (a ++ (b :: c)) = .ok (b2i b) := by
   subst hoff; simp [Fld.raw, byteAt, b2i, Except.map]
 
 theorem int_of_raw (f : Fld) (d : Bytes) (h : f.post = .raw) : f.int d = f.raw d := by
@@ -41,58 +42,67 @@ theorem encMainD4_length (s : RawMainD4) (h : s.Valid) : (encMainD4 s).length = 
 
 theorem d4Main_r_flags (s : RawMainD4) (h : s.Valid) : Gen.Score.d4Main_flags.raw (encMainD4 s) = .ok (s.flags) := by
   have e : encMainD4 s = ([]) ++ (encS .be 2 s.flags ++ ([s.transDuration] ++ [s.transChunk] ++ [s.fps] ++ [s.transition] ++ encS .be 2 s.sound1 ++ encS .be 2 s.sound2 ++ encS .be 2 s.soundFlags ++ encS .be 2 s.unknown1 ++ encS .be 2 s.unknown2 ++ encS .be 2 s.script ++ encS .be 2 s.unknown3)) := by simp [encMainD4, List.append_assoc]
-  rw [e]; exact raw_s16_at _ _ _ (h.1) _ (by simp)
+  rw [e]; exact raw_s16_at _ _ _ _ (h.1) _ (by simp)
 
 theorem d4Main_r_transition_duration (s : RawMainD4) (h : s.Valid) : Gen.Score.d4Main_transition_duration.raw (encMainD4 s) = .ok (b2i s.transDuration) := by
   have e : encMainD4 s = (encS .be 2 s.flags) ++ (s.transDuration :: ([s.transChunk] ++ [s.fps] ++ [s.transition] ++ encS .be 2 s.sound1 ++ encS .be 2 s.sound2 ++ encS .be 2 s.soundFlags ++ encS .be 2 s.unknown1 ++ encS .be 2 s.unknown2 ++ encS .be 2 s.script ++ encS .be 2 s.unknown3)) := by simp [encMainD4, List.append_assoc]
-  rw [e]; exact raw_u8_at _ _ _ _ (by simp)
+  rw [e]; exact raw_u8_at _ _ _ _ _ (by simp)
 
 theorem d4Main_r_transition_chunk_size (s : RawMainD4) (h : s.Valid) : Gen.Score.d4Main_transition_chunk_size.raw (encMainD4 s) = .ok (b2i s.transChunk) := by
   have e : encMainD4 s = (encS .be 2 s.flags ++ [s.transDuration]) ++ (s.transChunk :: ([s.fps] ++ [s.transition] ++ encS .be 2 s.sound1 ++ encS .be 2 s.sound2 ++ encS .be 2 s.soundFlags ++ encS .be 2 s.unknown1 ++ encS .be 2 s.unknown2 ++ encS .be 2 s.script ++ encS .be 2 s.unknown3)) := by simp [encMainD4, List.append_assoc]
-  rw [e]; exact raw_u8_at _ _ _ _ (by simp)
+  rw [e]; exact raw_u8_at _ _ _ _ _ (by simp)
 
 theorem d4Main_r_fps (s : RawMainD4) (h : s.Valid) : Gen.Score.d4Main_fps.raw (encMainD4 s) = .ok (b2i s.fps) := by
   have e : encMainD4 s = (encS .be 2 s.flags ++ [s.transDuration] ++ [s.transChunk]) ++ (s.fps :: ([s.transition] ++ encS .be 2 s.sound1 ++ encS .be 2 s.sound2 ++ encS .be 2 s.soundFlags ++ encS .be 2 s.unknown1 ++ encS .be 2 s.unknown2 ++ encS .be 2 s.script ++ encS .be 2 s.unknown3)) := by simp [encMainD4, List.append_assoc]
-  rw [e]; exact raw_u8_at _ _ _ _ (by simp)
+  rw [e]; exact raw_u8_at _ _ _ _ _ (by simp)
 
 theorem d4Main_r_transition_id (s : RawMainD4) (h : s.Valid) : Gen.Score.d4Main_transition_id.raw (encMainD4 s) = .ok (b2i s.transition) := by
   have e : encMainD4 s = (encS .be 2 s.flags ++ [s.transDuration] ++ [s.transChunk] ++ [s.fps]) ++ (s.transition :: (encS .be 2 s.sound1 ++ encS .be 2 s.sound2 ++ encS .be 2 s.soundFlags ++ encS .be 2 s.unknown1 ++ encS .be 2 s.unknown2 ++ encS .be 2 s.script ++ encS .be 2 s.unknown3)) := by simp [encMainD4, List.append_assoc]
-  rw [e]; exact raw_u8_at _ _ _ _ (by simp)
+  rw [e]; exact raw_u8_at _ _ _ _ _ (by simp)
 
 theorem d4Main_r_sound1_cast (s : RawMainD4) (h : s.Valid) : Gen.Score.d4Main_sound1_cast.raw (encMainD4 s) = .ok (s.sound1) := by
   have e : encMainD4 s = (encS .be 2 s.flags ++ [s.transDuration] ++ [s.transChunk] ++ [s.fps] ++ [s.transition]) ++ (encS .be 2 s.sound1 ++ (encS .be 2 s.sound2 ++ encS .be 2 s.soundFlags ++ encS .be 2 s.unknown1 ++ encS .be 2 s.unknown2 ++ encS .be 2 s.script ++ encS .be 2 s.unknown3)) := by simp [encMainD4, List.append_assoc]
-  rw [e]; exact raw_s16_at _ _ _ (h.2.1) _ (by simp)
+  rw [e]; exact raw_s16_at _ _ _ _ (h.2.1) _ (by simp)
 
 theorem d4Main_r_sound2_cast (s : RawMainD4) (h : s.Valid) : Gen.Score.d4Main_sound2_cast.raw (encMainD4 s) = .ok (s.sound2) := by
   have e : encMainD4 s = (encS .be 2 s.flags ++ [s.transDuration] ++ [s.transChunk] ++ [s.fps] ++ [s.transition] ++ encS .be 2 s.sound1) ++ (encS .be 2 s.sound2 ++ (encS .be 2 s.soundFlags ++ encS .be 2 s.unknown1 ++ encS .be 2 s.unknown2 ++ encS .be 2 s.script ++ encS .be 2 s.unknown3)) := by simp [encMainD4, List.append_assoc]
-  rw [e]; exact raw_s16_at _ _ _ (h.2.2.1) _ (by simp)
+  rw [e]; exact raw_s16_at _ _ _ _ (h.2.2.1) _ (by simp)
 
 theorem d4Main_r_sound_flags (s : RawMainD4) (h : s.Valid) : Gen.Score.d4Main_sound_flags.raw (encMainD4 s) = .ok (s.soundFlags) := by
   have e : encMainD4 s = (encS .be 2 s.flags ++ [s.transDuration] ++ [s.transChunk] ++ [s.fps] ++ [s.transition] ++ encS .be 2 s.sound1 ++ encS .be 2 s.sound2) ++ (encS .be 2 s.soundFlags ++ (encS .be 2 s.unknown1 ++ encS .be 2 s.unknown2 ++ encS .be 2 s.script ++ encS .be 2 s.unknown3)) := by simp [encMainD4, List.append_assoc]
-  rw [e]; exact raw_s16_at _ _ _ (h.2.2.2.1) _ (by simp)
+  rw [e]; exact raw_s16_at _ _ _ _ (h.2.2.2.1) _ (by simp)
 
 theorem d4Main_r_unknown1 (s : RawMainD4) (h : s.Valid) : Gen.Score.d4Main_unknown1.raw (encMainD4 s) = .ok (s.unknown1) := by
   have e : encMainD4 s = (encS .be 2 s.flags ++ [s.transDuration] ++ [s.transChunk] ++ [s.fps] ++ [s.transition] ++ encS .be 2 s.sound1 ++ encS .be 2 s.sound2 ++ encS .be 2 s.soundFlags) ++ (encS .be 2 s.unknown1 ++ (encS .be 2 s.unknown2 ++ encS .be 2 s.script ++ encS .be 2 s.unknown3)) := by simp [encMainD4, List.append_assoc]
-  rw [e]; exact raw_s16_at _ _ _ (h.2.2.2.2.1) _ (by simp)
+  rw [e]; exact raw_s16_at _ _ _ _ (h.2.2.2.2.1) _ (by simp)
 
 theorem d4Main_r_unknown2 (s : RawMainD4) (h : s.Valid) : Gen.Score.d4Main_unknown2.raw (encMainD4 s) = .ok (s.unknown2) := by
   have e : encMainD4 s = (encS .be 2 s.flags ++ [s.transDuration] ++ [s.transChunk] ++ [s.fps] ++ [s.transition] ++ encS .be 2 s.sound1 ++ encS .be 2 s.sound2 ++ encS .be 2 s.soundFlags ++ encS .be 2 s.unknown1) ++ (encS .be 2 s.unknown2 ++ (encS .be 2 s.script ++ encS .be 2 s.unknown3)) := by simp [encMainD4, List.append_assoc]
-  rw [e]; exact raw_s16_at _ _ _ (h.2.2.2.2.2.1) _ (by simp)
+  rw [e]; exact raw_s16_at _ _ _ _ (h.2.2.2.2.2.1) _ (by simp)
 
 theorem d4Main_r_script (s : RawMainD4) (h : s.Valid) : Gen.Score.d4Main_script.raw (encMainD4 s) = .ok (s.script) := by
   have e : encMainD4 s = (encS .be 2 s.flags ++ [s.transDuration] ++ [s.transChunk] ++ [s.fps] ++ [s.transition] ++ encS .be 2 s.sound1 ++ encS .be 2 s.sound2 ++ encS .be 2 s.soundFlags ++ encS .be 2 s.unknown1 ++ encS .be 2 s.unknown2) ++ (encS .be 2 s.script ++ (encS .be 2 s.unknown3)) := by simp [encMainD4, List.append_assoc]
-  rw [e]; exact raw_s16_at _ _ _ (h.2.2.2.2.2.2.1) _ (by simp)
+  rw [e]; exact raw_s16_at _ _ _ _ (h.2.2.2.2.2.2.1) _ (by simp)
 
 theorem d4Main_r_unknown3 (s : RawMainD4) (h : s.Valid) : Gen.Score.d4Main_unknown3.raw (encMainD4 s) = .ok (s.unknown3) := by
   have e : encMainD4 s = (encS .be 2 s.flags ++ [s.transDuration] ++ [s.transChunk] ++ [s.fps] ++ [s.transition] ++ encS .be 2 s.sound1 ++ encS .be 2 s.sound2 ++ encS .be 2 s.soundFlags ++ encS .be 2 s.unknown1 ++ encS .be 2 s.unknown2 ++ encS .be 2 s.script) ++ (encS .be 2 s.unknown3 ++ ([])) := by simp [encMainD4, List.append_assoc]
-  rw [e]; exact raw_s16_at _ _ _ (h.2.2.2.2.2.2.2) _ (by simp)
+  rw [e]; exact raw_s16_at _ _ _ _ (h.2.2.2.2.2.2.2) _ (by simp)
 
-theorem d4Main_check (s : RawMainD4) (h : s.Valid) : checkAll Gen.Score.d4Main (encMainD4 s) = .ok () := by
-  simp only [Gen.Score.d4Main, checkAll, d4Main_r_flags s h, d4Main_r_transition_duration s h, d4Main_r_transition_chunk_size s h, d4Main_r_fps s h, d4Main_r_transition_id s h, d4Main_r_sound1_cast s h, d4Main_r_sound2_cast s h, d4Main_r_sound_flags s h, d4Main_r_unknown1 s h, d4Main_r_unknown2 s h, d4Main_r_script s h, d4Main_r_unknown3 s h, bind, Except.bind]
+theorem d4Main_check_of (d : Bytes) (v_flags v_transition_duration v_transition_chunk_size v_fps v_transition_id v_sound1_cast v_sound2_cast v_sound_flags v_unknown1 v_unknown2 v_script v_unknown3 : Int) (f_flags : Gen.Score.d4Main_flags.raw d = .ok v_flags) (f_transition_duration : Gen.Score.d4Main_transition_duration.raw d = .ok v_transition_duration) (f_transition_chunk_size : Gen.Score.d4Main_transition_chunk_size.raw d = .ok v_transition_chunk_size) (f_fps : Gen.Score.d4Main_fps.raw d = .ok v_fps) (f_transition_id : Gen.Score.d4Main_transition_id.raw d = .ok v_transition_id) (f_sound1_cast : Gen.Score.d4Main_sound1_cast.raw d = .ok v_sound1_cast) (f_sound2_cast : Gen.Score.d4Main_sound2_cast.raw d = .ok v_sound2_cast) (f_sound_flags : Gen.Score.d4Main_sound_flags.raw d = .ok v_sound_flags) (f_unknown1 : Gen.Score.d4Main_unknown1.raw d = .ok v_unknown1) (f_unknown2 : Gen.Score.d4Main_unknown2.raw d = .ok v_unknown2) (f_script : Gen.Score.d4Main_script.raw d = .ok v_script) (f_unknown3 : Gen.Score.d4Main_unknown3.raw d = .ok v_unknown3) :
+    checkAll Gen.Score.d4Main d = .ok () := by
+  simp only [Gen.Score.d4Main, checkAll, f_flags, f_transition_duration, f_transition_chunk_size, f_fps, f_transition_id, f_sound1_cast, f_sound2_cast, f_sound_flags, f_unknown1, f_unknown2, f_script, f_unknown3, bind, Except.bind]
+
+theorem d4Main_check (s : RawMainD4) (h : s.Valid) : checkAll Gen.Score.d4Main (encMainD4 s) = .ok () :=
+  d4Main_check_of _ _ _ _ _ _ _ _ _ _ _ _ _ (d4Main_r_flags s h) (d4Main_r_transition_duration s h) (d4Main_r_transition_chunk_size s h) (d4Main_r_fps s h) (d4Main_r_transition_id s h) (d4Main_r_sound1_cast s h) (d4Main_r_sound2_cast s h) (d4Main_r_sound_flags s h) (d4Main_r_unknown1 s h) (d4Main_r_unknown2 s h) (d4Main_r_script s h) (d4Main_r_unknown3 s h)
+
+theorem d4ReadMain_of (d : Bytes) (v_transition_duration v_transition_chunk_size v_fps v_transition_id v_sound1_cast v_sound2_cast v_script : Int) (hc : checkAll Gen.Score.d4Main d = .ok ()) (f_transition_duration : Gen.Score.d4Main_transition_duration.raw d = .ok v_transition_duration) (f_transition_chunk_size : Gen.Score.d4Main_transition_chunk_size.raw d = .ok v_transition_chunk_size) (f_fps : Gen.Score.d4Main_fps.raw d = .ok v_fps) (f_transition_id : Gen.Score.d4Main_transition_id.raw d = .ok v_transition_id) (f_sound1_cast : Gen.Score.d4Main_sound1_cast.raw d = .ok v_sound1_cast) (f_sound2_cast : Gen.Score.d4Main_sound2_cast.raw d = .ok v_sound2_cast) (f_script : Gen.Score.d4Main_script.raw d = .ok v_script) :
+    d4ReadMain d = .ok (if v_fps ≠ 0 ∨ v_sound1_cast ≠ 0 ∨ v_sound2_cast ≠ 0 ∨ v_script ≠ 0 then some ⟨v_fps, v_sound1_cast, v_sound2_cast, v_script, .d4 (transitionName v_transition_id) v_transition_chunk_size (v_transition_duration % 128)⟩ else none) := by
+  simp only [d4ReadMain, hc, int_of_raw _ _ (rfl : Gen.Score.d4Main_transition_duration.post = .raw), f_transition_duration, int_of_raw _ _ (rfl : Gen.Score.d4Main_transition_chunk_size.post = .raw), f_transition_chunk_size, int_of_raw _ _ (rfl : Gen.Score.d4Main_fps.post = .raw), f_fps, f_transition_id, int_of_raw _ _ (rfl : Gen.Score.d4Main_sound1_cast.post = .raw), f_sound1_cast, int_of_raw _ _ (rfl : Gen.Score.d4Main_sound2_cast.post = .raw), f_sound2_cast, int_of_raw _ _ (rfl : Gen.Score.d4Main_script.post = .raw), f_script, bind, Except.bind, pure, Except.pure]
+  split <;> rfl
 
 theorem d4ReadMain_enc (s : RawMainD4) (h : s.Valid) : d4ReadMain (encMainD4 s) = .ok (viewMainD4 s) := by
-  simp only [d4ReadMain, d4Main_check s h, int_of_raw _ _ (rfl : Gen.Score.d4Main_transition_duration.post = .raw), d4Main_r_transition_duration s h, int_of_raw _ _ (rfl : Gen.Score.d4Main_transition_chunk_size.post = .raw), d4Main_r_transition_chunk_size s h, int_of_raw _ _ (rfl : Gen.Score.d4Main_fps.post = .raw), d4Main_r_fps s h, d4Main_r_transition_id s h, int_of_raw _ _ (rfl : Gen.Score.d4Main_sound1_cast.post = .raw), d4Main_r_sound1_cast s h, int_of_raw _ _ (rfl : Gen.Score.d4Main_sound2_cast.post = .raw), d4Main_r_sound2_cast s h, int_of_raw _ _ (rfl : Gen.Score.d4Main_script.post = .raw), d4Main_r_script s h, bind, Except.bind, pure, Except.pure, viewMainD4]
-  split <;> rfl
+  rw [d4ReadMain_of _ _ _ _ _ _ _ _ (d4Main_check s h) (d4Main_r_transition_duration s h) (d4Main_r_transition_chunk_size s h) (d4Main_r_fps s h) (d4Main_r_transition_id s h) (d4Main_r_sound1_cast s h) (d4Main_r_sound2_cast s h) (d4Main_r_script s h)]
+  simp only [viewMainD4]
 
 /-! ### d4ReadPalette -/
 
@@ -101,50 +111,59 @@ theorem encPalD4_length (s : RawPalD4) (h : s.Valid) : (encPalD4 s).length = 20 
 
 theorem d4Palette_r_palette_id (s : RawPalD4) (h : s.Valid) : Gen.Score.d4Palette_palette_id.raw (encPalD4 s) = .ok (s.paletteId) := by
   have e : encPalD4 s = ([]) ++ (encS .be 2 s.paletteId ++ (encS .be 2 s.unknown2 ++ [s.opcode] ++ [s.fps] ++ encS .be 2 s.unknown4 ++ encS .be 2 s.cycles ++ encS .be 2 s.unknown6 ++ encS .be 2 s.unknown7 ++ encS .be 2 s.unknown8 ++ encS .be 2 s.unknown9 ++ [s.pad0] ++ [s.pad1])) := by simp [encPalD4, List.append_assoc]
-  rw [e]; exact raw_s16_at _ _ _ (h.1) _ (by simp)
+  rw [e]; exact raw_s16_at _ _ _ _ (h.1) _ (by simp)
 
 theorem d4Palette_r_unknown2 (s : RawPalD4) (h : s.Valid) : Gen.Score.d4Palette_unknown2.raw (encPalD4 s) = .ok (s.unknown2) := by
   have e : encPalD4 s = (encS .be 2 s.paletteId) ++ (encS .be 2 s.unknown2 ++ ([s.opcode] ++ [s.fps] ++ encS .be 2 s.unknown4 ++ encS .be 2 s.cycles ++ encS .be 2 s.unknown6 ++ encS .be 2 s.unknown7 ++ encS .be 2 s.unknown8 ++ encS .be 2 s.unknown9 ++ [s.pad0] ++ [s.pad1])) := by simp [encPalD4, List.append_assoc]
-  rw [e]; exact raw_s16_at _ _ _ (h.2.1) _ (by simp)
+  rw [e]; exact raw_s16_at _ _ _ _ (h.2.1) _ (by simp)
 
 theorem d4Palette_r_operation_code (s : RawPalD4) (h : s.Valid) : Gen.Score.d4Palette_operation_code.raw (encPalD4 s) = .ok (b2i s.opcode) := by
   have e : encPalD4 s = (encS .be 2 s.paletteId ++ encS .be 2 s.unknown2) ++ (s.opcode :: ([s.fps] ++ encS .be 2 s.unknown4 ++ encS .be 2 s.cycles ++ encS .be 2 s.unknown6 ++ encS .be 2 s.unknown7 ++ encS .be 2 s.unknown8 ++ encS .be 2 s.unknown9 ++ [s.pad0] ++ [s.pad1])) := by simp [encPalD4, List.append_assoc]
-  rw [e]; exact raw_u8_at _ _ _ _ (by simp)
+  rw [e]; exact raw_u8_at _ _ _ _ _ (by simp)
 
 theorem d4Palette_r_fps (s : RawPalD4) (h : s.Valid) : Gen.Score.d4Palette_fps.raw (encPalD4 s) = .ok (b2i s.fps) := by
   have e : encPalD4 s = (encS .be 2 s.paletteId ++ encS .be 2 s.unknown2 ++ [s.opcode]) ++ (s.fps :: (encS .be 2 s.unknown4 ++ encS .be 2 s.cycles ++ encS .be 2 s.unknown6 ++ encS .be 2 s.unknown7 ++ encS .be 2 s.unknown8 ++ encS .be 2 s.unknown9 ++ [s.pad0] ++ [s.pad1])) := by simp [encPalD4, List.append_assoc]
-  rw [e]; exact raw_u8_at _ _ _ _ (by simp)
+  rw [e]; exact raw_u8_at _ _ _ _ _ (by simp)
 
 theorem d4Palette_r_unknown4 (s : RawPalD4) (h : s.Valid) : Gen.Score.d4Palette_unknown4.raw (encPalD4 s) = .ok (s.unknown4) := by
   have e : encPalD4 s = (encS .be 2 s.paletteId ++ encS .be 2 s.unknown2 ++ [s.opcode] ++ [s.fps]) ++ (encS .be 2 s.unknown4 ++ (encS .be 2 s.cycles ++ encS .be 2 s.unknown6 ++ encS .be 2 s.unknown7 ++ encS .be 2 s.unknown8 ++ encS .be 2 s.unknown9 ++ [s.pad0] ++ [s.pad1])) := by simp [encPalD4, List.append_assoc]
-  rw [e]; exact raw_s16_at _ _ _ (h.2.2.1) _ (by simp)
+  rw [e]; exact raw_s16_at _ _ _ _ (h.2.2.1) _ (by simp)
 
 theorem d4Palette_r_cycles (s : RawPalD4) (h : s.Valid) : Gen.Score.d4Palette_cycles.raw (encPalD4 s) = .ok (s.cycles) := by
   have e : encPalD4 s = (encS .be 2 s.paletteId ++ encS .be 2 s.unknown2 ++ [s.opcode] ++ [s.fps] ++ encS .be 2 s.unknown4) ++ (encS .be 2 s.cycles ++ (encS .be 2 s.unknown6 ++ encS .be 2 s.unknown7 ++ encS .be 2 s.unknown8 ++ encS .be 2 s.unknown9 ++ [s.pad0] ++ [s.pad1])) := by simp [encPalD4, List.append_assoc]
-  rw [e]; exact raw_s16_at _ _ _ (h.2.2.2.1) _ (by simp)
+  rw [e]; exact raw_s16_at _ _ _ _ (h.2.2.2.1) _ (by simp)
 
 theorem d4Palette_r_unknown6 (s : RawPalD4) (h : s.Valid) : Gen.Score.d4Palette_unknown6.raw (encPalD4 s) = .ok (s.unknown6) := by
   have e : encPalD4 s = (encS .be 2 s.paletteId ++ encS .be 2 s.unknown2 ++ [s.opcode] ++ [s.fps] ++ encS .be 2 s.unknown4 ++ encS .be 2 s.cycles) ++ (encS .be 2 s.unknown6 ++ (encS .be 2 s.unknown7 ++ encS .be 2 s.unknown8 ++ encS .be 2 s.unknown9 ++ [s.pad0] ++ [s.pad1])) := by simp [encPalD4, List.append_assoc]
-  rw [e]; exact raw_s16_at _ _ _ (h.2.2.2.2.1) _ (by simp)
+  rw [e]; exact raw_s16_at _ _ _ _ (h.2.2.2.2.1) _ (by simp)
 
 theorem d4Palette_r_unknown7 (s : RawPalD4) (h : s.Valid) : Gen.Score.d4Palette_unknown7.raw (encPalD4 s) = .ok (s.unknown7) := by
   have e : encPalD4 s = (encS .be 2 s.paletteId ++ encS .be 2 s.unknown2 ++ [s.opcode] ++ [s.fps] ++ encS .be 2 s.unknown4 ++ encS .be 2 s.cycles ++ encS .be 2 s.unknown6) ++ (encS .be 2 s.unknown7 ++ (encS .be 2 s.unknown8 ++ encS .be 2 s.unknown9 ++ [s.pad0] ++ [s.pad1])) := by simp [encPalD4, List.append_assoc]
-  rw [e]; exact raw_s16_at _ _ _ (h.2.2.2.2.2.1) _ (by simp)
+  rw [e]; exact raw_s16_at _ _ _ _ (h.2.2.2.2.2.1) _ (by simp)
 
 theorem d4Palette_r_unknown8 (s : RawPalD4) (h : s.Valid) : Gen.Score.d4Palette_unknown8.raw (encPalD4 s) = .ok (s.unknown8) := by
   have e : encPalD4 s = (encS .be 2 s.paletteId ++ encS .be 2 s.unknown2 ++ [s.opcode] ++ [s.fps] ++ encS .be 2 s.unknown4 ++ encS .be 2 s.cycles ++ encS .be 2 s.unknown6 ++ encS .be 2 s.unknown7) ++ (encS .be 2 s.unknown8 ++ (encS .be 2 s.unknown9 ++ [s.pad0] ++ [s.pad1])) := by simp [encPalD4, List.append_assoc]
-  rw [e]; exact raw_s16_at _ _ _ (h.2.2.2.2.2.2.1) _ (by simp)
+  rw [e]; exact raw_s16_at _ _ _ _ (h.2.2.2.2.2.2.1) _ (by simp)
 
 theorem d4Palette_r_unknown9 (s : RawPalD4) (h : s.Valid) : Gen.Score.d4Palette_unknown9.raw (encPalD4 s) = .ok (s.unknown9) := by
   have e : encPalD4 s = (encS .be 2 s.paletteId ++ encS .be 2 s.unknown2 ++ [s.opcode] ++ [s.fps] ++ encS .be 2 s.unknown4 ++ encS .be 2 s.cycles ++ encS .be 2 s.unknown6 ++ encS .be 2 s.unknown7 ++ encS .be 2 s.unknown8) ++ (encS .be 2 s.unknown9 ++ ([s.pad0] ++ [s.pad1])) := by simp [encPalD4, List.append_assoc]
-  rw [e]; exact raw_s16_at _ _ _ (h.2.2.2.2.2.2.2) _ (by simp)
+  rw [e]; exact raw_s16_at _ _ _ _ (h.2.2.2.2.2.2.2) _ (by simp)
 
-theorem d4Palette_check (s : RawPalD4) (h : s.Valid) : checkAll Gen.Score.d4Palette (encPalD4 s) = .ok () := by
-  simp only [Gen.Score.d4Palette, checkAll, d4Palette_r_palette_id s h, d4Palette_r_unknown2 s h, d4Palette_r_operation_code s h, d4Palette_r_fps s h, d4Palette_r_unknown4 s h, d4Palette_r_cycles s h, d4Palette_r_unknown6 s h, d4Palette_r_unknown7 s h, d4Palette_r_unknown8 s h, d4Palette_r_unknown9 s h, bind, Except.bind]
+theorem d4Palette_check_of (d : Bytes) (v_palette_id v_unknown2 v_operation_code v_fps v_unknown4 v_cycles v_unknown6 v_unknown7 v_unknown8 v_unknown9 : Int) (f_palette_id : Gen.Score.d4Palette_palette_id.raw d = .ok v_palette_id) (f_unknown2 : Gen.Score.d4Palette_unknown2.raw d = .ok v_unknown2) (f_operation_code : Gen.Score.d4Palette_operation_code.raw d = .ok v_operation_code) (f_fps : Gen.Score.d4Palette_fps.raw d = .ok v_fps) (f_unknown4 : Gen.Score.d4Palette_unknown4.raw d = .ok v_unknown4) (f_cycles : Gen.Score.d4Palette_cycles.raw d = .ok v_cycles) (f_unknown6 : Gen.Score.d4Palette_unknown6.raw d = .ok v_unknown6) (f_unknown7 : Gen.Score.d4Palette_unknown7.raw d = .ok v_unknown7) (f_unknown8 : Gen.Score.d4Palette_unknown8.raw d = .ok v_unknown8) (f_unknown9 : Gen.Score.d4Palette_unknown9.raw d = .ok v_unknown9) :
+    checkAll Gen.Score.d4Palette d = .ok () := by
+  simp only [Gen.Score.d4Palette, checkAll, f_palette_id, f_unknown2, f_operation_code, f_fps, f_unknown4, f_cycles, f_unknown6, f_unknown7, f_unknown8, f_unknown9, bind, Except.bind]
+
+theorem d4Palette_check (s : RawPalD4) (h : s.Valid) : checkAll Gen.Score.d4Palette (encPalD4 s) = .ok () :=
+  d4Palette_check_of _ _ _ _ _ _ _ _ _ _ _ (d4Palette_r_palette_id s h) (d4Palette_r_unknown2 s h) (d4Palette_r_operation_code s h) (d4Palette_r_fps s h) (d4Palette_r_unknown4 s h) (d4Palette_r_cycles s h) (d4Palette_r_unknown6 s h) (d4Palette_r_unknown7 s h) (d4Palette_r_unknown8 s h) (d4Palette_r_unknown9 s h)
+
+theorem d4ReadPalette_of (d : Bytes) (v_palette_id v_operation_code v_fps v_cycles : Int) (hc : checkAll Gen.Score.d4Palette d = .ok ()) (f_palette_id : Gen.Score.d4Palette_palette_id.raw d = .ok v_palette_id) (f_operation_code : Gen.Score.d4Palette_operation_code.raw d = .ok v_operation_code) (f_fps : Gen.Score.d4Palette_fps.raw d = .ok v_fps) (f_cycles : Gen.Score.d4Palette_cycles.raw d = .ok v_cycles) :
+    d4ReadPalette d = .ok (if v_palette_id ≠ 0 then some ⟨v_fps, operationName v_operation_code, v_palette_id, v_cycles⟩ else none) := by
+  simp only [d4ReadPalette, hc, int_of_raw _ _ (rfl : Gen.Score.d4Palette_palette_id.post = .raw), f_palette_id, int_of_raw _ _ (rfl : Gen.Score.d4Palette_operation_code.post = .raw), f_operation_code, int_of_raw _ _ (rfl : Gen.Score.d4Palette_fps.post = .raw), f_fps, int_of_raw _ _ (rfl : Gen.Score.d4Palette_cycles.post = .raw), f_cycles, bind, Except.bind, pure, Except.pure]
+  split <;> rfl
 
 theorem d4ReadPalette_enc (s : RawPalD4) (h : s.Valid) : d4ReadPalette (encPalD4 s) = .ok (viewPalD4 s) := by
-  simp only [d4ReadPalette, d4Palette_check s h, int_of_raw _ _ (rfl : Gen.Score.d4Palette_palette_id.post = .raw), d4Palette_r_palette_id s h, int_of_raw _ _ (rfl : Gen.Score.d4Palette_operation_code.post = .raw), d4Palette_r_operation_code s h, int_of_raw _ _ (rfl : Gen.Score.d4Palette_fps.post = .raw), d4Palette_r_fps s h, int_of_raw _ _ (rfl : Gen.Score.d4Palette_cycles.post = .raw), d4Palette_r_cycles s h, bind, Except.bind, pure, Except.pure, viewPalD4]
-  split <;> rfl
+  rw [d4ReadPalette_of _ _ _ _ _ (d4Palette_check s h) (d4Palette_r_palette_id s h) (d4Palette_r_operation_code s h) (d4Palette_r_fps s h) (d4Palette_r_cycles s h)]
+  simp only [viewPalD4]
 
 /-! ### d4ReadSprite -/
 
@@ -153,58 +172,67 @@ theorem encSpriteD4_length (s : RawSpriteD4) (h : s.Valid) : (encSpriteD4 s).len
 
 theorem d4Sprite_r_spriteType (s : RawSpriteD4) (h : s.Valid) : Gen.Score.d4Sprite_spriteType.raw (encSpriteD4 s) = .ok (s.spriteType) := by
   have e : encSpriteD4 s = ([]) ++ (encS .be 2 s.spriteType ++ ([s.fg] ++ [s.bg] ++ [s.flags] ++ [s.ink] ++ encS .be 2 s.castId ++ encS .be 2 s.y ++ encS .be 2 s.x ++ encS .be 2 s.height ++ encS .be 2 s.width ++ encU16 s.flag1 ++ encU16 s.flag2)) := by simp [encSpriteD4, List.append_assoc]
-  rw [e]; exact raw_s16_at _ _ _ (h.1) _ (by simp)
+  rw [e]; exact raw_s16_at _ _ _ _ (h.1) _ (by simp)
 
 theorem d4Sprite_r_foregroundColor (s : RawSpriteD4) (h : s.Valid) : Gen.Score.d4Sprite_foregroundColor.raw (encSpriteD4 s) = .ok (b2i s.fg) := by
   have e : encSpriteD4 s = (encS .be 2 s.spriteType) ++ (s.fg :: ([s.bg] ++ [s.flags] ++ [s.ink] ++ encS .be 2 s.castId ++ encS .be 2 s.y ++ encS .be 2 s.x ++ encS .be 2 s.height ++ encS .be 2 s.width ++ encU16 s.flag1 ++ encU16 s.flag2)) := by simp [encSpriteD4, List.append_assoc]
-  rw [e]; exact raw_u8_at _ _ _ _ (by simp)
+  rw [e]; exact raw_u8_at _ _ _ _ _ (by simp)
 
 theorem d4Sprite_r_backgroundColor (s : RawSpriteD4) (h : s.Valid) : Gen.Score.d4Sprite_backgroundColor.raw (encSpriteD4 s) = .ok (b2i s.bg) := by
   have e : encSpriteD4 s = (encS .be 2 s.spriteType ++ [s.fg]) ++ (s.bg :: ([s.flags] ++ [s.ink] ++ encS .be 2 s.castId ++ encS .be 2 s.y ++ encS .be 2 s.x ++ encS .be 2 s.height ++ encS .be 2 s.width ++ encU16 s.flag1 ++ encU16 s.flag2)) := by simp [encSpriteD4, List.append_assoc]
-  rw [e]; exact raw_u8_at _ _ _ _ (by simp)
+  rw [e]; exact raw_u8_at _ _ _ _ _ (by simp)
 
 theorem d4Sprite_r_flags (s : RawSpriteD4) (h : s.Valid) : Gen.Score.d4Sprite_flags.raw (encSpriteD4 s) = .ok (b2i s.flags) := by
   have e : encSpriteD4 s = (encS .be 2 s.spriteType ++ [s.fg] ++ [s.bg]) ++ (s.flags :: ([s.ink] ++ encS .be 2 s.castId ++ encS .be 2 s.y ++ encS .be 2 s.x ++ encS .be 2 s.height ++ encS .be 2 s.width ++ encU16 s.flag1 ++ encU16 s.flag2)) := by simp [encSpriteD4, List.append_assoc]
-  rw [e]; exact raw_u8_at _ _ _ _ (by simp)
+  rw [e]; exact raw_u8_at _ _ _ _ _ (by simp)
 
 theorem d4Sprite_r_ink_byte (s : RawSpriteD4) (h : s.Valid) : Gen.Score.d4Sprite_ink_byte.raw (encSpriteD4 s) = .ok (b2i s.ink) := by
   have e : encSpriteD4 s = (encS .be 2 s.spriteType ++ [s.fg] ++ [s.bg] ++ [s.flags]) ++ (s.ink :: (encS .be 2 s.castId ++ encS .be 2 s.y ++ encS .be 2 s.x ++ encS .be 2 s.height ++ encS .be 2 s.width ++ encU16 s.flag1 ++ encU16 s.flag2)) := by simp [encSpriteD4, List.append_assoc]
-  rw [e]; exact raw_u8_at _ _ _ _ (by simp)
+  rw [e]; exact raw_u8_at _ _ _ _ _ (by simp)
 
 theorem d4Sprite_r_castId (s : RawSpriteD4) (h : s.Valid) : Gen.Score.d4Sprite_castId.raw (encSpriteD4 s) = .ok (s.castId) := by
   have e : encSpriteD4 s = (encS .be 2 s.spriteType ++ [s.fg] ++ [s.bg] ++ [s.flags] ++ [s.ink]) ++ (encS .be 2 s.castId ++ (encS .be 2 s.y ++ encS .be 2 s.x ++ encS .be 2 s.height ++ encS .be 2 s.width ++ encU16 s.flag1 ++ encU16 s.flag2)) := by simp [encSpriteD4, List.append_assoc]
-  rw [e]; exact raw_s16_at _ _ _ (h.2.1) _ (by simp)
+  rw [e]; exact raw_s16_at _ _ _ _ (h.2.1) _ (by simp)
 
 theorem d4Sprite_r_y (s : RawSpriteD4) (h : s.Valid) : Gen.Score.d4Sprite_y.raw (encSpriteD4 s) = .ok (s.y) := by
   have e : encSpriteD4 s = (encS .be 2 s.spriteType ++ [s.fg] ++ [s.bg] ++ [s.flags] ++ [s.ink] ++ encS .be 2 s.castId) ++ (encS .be 2 s.y ++ (encS .be 2 s.x ++ encS .be 2 s.height ++ encS .be 2 s.width ++ encU16 s.flag1 ++ encU16 s.flag2)) := by simp [encSpriteD4, List.append_assoc]
-  rw [e]; exact raw_s16_at _ _ _ (h.2.2.1) _ (by simp)
+  rw [e]; exact raw_s16_at _ _ _ _ (h.2.2.1) _ (by simp)
 
 theorem d4Sprite_r_x (s : RawSpriteD4) (h : s.Valid) : Gen.Score.d4Sprite_x.raw (encSpriteD4 s) = .ok (s.x) := by
   have e : encSpriteD4 s = (encS .be 2 s.spriteType ++ [s.fg] ++ [s.bg] ++ [s.flags] ++ [s.ink] ++ encS .be 2 s.castId ++ encS .be 2 s.y) ++ (encS .be 2 s.x ++ (encS .be 2 s.height ++ encS .be 2 s.width ++ encU16 s.flag1 ++ encU16 s.flag2)) := by simp [encSpriteD4, List.append_assoc]
-  rw [e]; exact raw_s16_at _ _ _ (h.2.2.2.1) _ (by simp)
+  rw [e]; exact raw_s16_at _ _ _ _ (h.2.2.2.1) _ (by simp)
 
 theorem d4Sprite_r_height (s : RawSpriteD4) (h : s.Valid) : Gen.Score.d4Sprite_height.raw (encSpriteD4 s) = .ok (s.height) := by
   have e : encSpriteD4 s = (encS .be 2 s.spriteType ++ [s.fg] ++ [s.bg] ++ [s.flags] ++ [s.ink] ++ encS .be 2 s.castId ++ encS .be 2 s.y ++ encS .be 2 s.x) ++ (encS .be 2 s.height ++ (encS .be 2 s.width ++ encU16 s.flag1 ++ encU16 s.flag2)) := by simp [encSpriteD4, List.append_assoc]
-  rw [e]; exact raw_s16_at _ _ _ (h.2.2.2.2.1) _ (by simp)
+  rw [e]; exact raw_s16_at _ _ _ _ (h.2.2.2.2.1) _ (by simp)
 
 theorem d4Sprite_r_width (s : RawSpriteD4) (h : s.Valid) : Gen.Score.d4Sprite_width.raw (encSpriteD4 s) = .ok (s.width) := by
   have e : encSpriteD4 s = (encS .be 2 s.spriteType ++ [s.fg] ++ [s.bg] ++ [s.flags] ++ [s.ink] ++ encS .be 2 s.castId ++ encS .be 2 s.y ++ encS .be 2 s.x ++ encS .be 2 s.height) ++ (encS .be 2 s.width ++ (encU16 s.flag1 ++ encU16 s.flag2)) := by simp [encSpriteD4, List.append_assoc]
-  rw [e]; exact raw_s16_at _ _ _ (h.2.2.2.2.2.1) _ (by simp)
+  rw [e]; exact raw_s16_at _ _ _ _ (h.2.2.2.2.2.1) _ (by simp)
 
 theorem d4Sprite_r_flag1 (s : RawSpriteD4) (h : s.Valid) : Gen.Score.d4Sprite_flag1.raw (encSpriteD4 s) = .ok (toSigned 16 s.flag1) := by
   have e : encSpriteD4 s = (encS .be 2 s.spriteType ++ [s.fg] ++ [s.bg] ++ [s.flags] ++ [s.ink] ++ encS .be 2 s.castId ++ encS .be 2 s.y ++ encS .be 2 s.x ++ encS .be 2 s.height ++ encS .be 2 s.width) ++ (encU16 s.flag1 ++ (encU16 s.flag2)) := by simp [encSpriteD4, List.append_assoc]
-  rw [e]; exact raw_u16_at _ _ _ (h.2.2.2.2.2.2.1) _ (by simp)
+  rw [e]; exact raw_u16_at _ _ _ _ (h.2.2.2.2.2.2.1) _ (by simp)
 
 theorem d4Sprite_r_flag2 (s : RawSpriteD4) (h : s.Valid) : Gen.Score.d4Sprite_flag2.raw (encSpriteD4 s) = .ok (toSigned 16 s.flag2) := by
   have e : encSpriteD4 s = (encS .be 2 s.spriteType ++ [s.fg] ++ [s.bg] ++ [s.flags] ++ [s.ink] ++ encS .be 2 s.castId ++ encS .be 2 s.y ++ encS .be 2 s.x ++ encS .be 2 s.height ++ encS .be 2 s.width ++ encU16 s.flag1) ++ (encU16 s.flag2 ++ ([])) := by simp [encSpriteD4, List.append_assoc]
-  rw [e]; exact raw_u16_at _ _ _ (h.2.2.2.2.2.2.2) _ (by simp)
+  rw [e]; exact raw_u16_at _ _ _ _ (h.2.2.2.2.2.2.2) _ (by simp)
 
-theorem d4Sprite_check (s : RawSpriteD4) (h : s.Valid) : checkAll Gen.Score.d4Sprite (encSpriteD4 s) = .ok () := by
-  simp only [Gen.Score.d4Sprite, checkAll, d4Sprite_r_spriteType s h, d4Sprite_r_foregroundColor s h, d4Sprite_r_backgroundColor s h, d4Sprite_r_flags s h, d4Sprite_r_ink_byte s h, d4Sprite_r_castId s h, d4Sprite_r_y s h, d4Sprite_r_x s h, d4Sprite_r_height s h, d4Sprite_r_width s h, d4Sprite_r_flag1 s h, d4Sprite_r_flag2 s h, bind, Except.bind]
+theorem d4Sprite_check_of (d : Bytes) (v_spriteType v_foregroundColor v_backgroundColor v_flags v_ink_byte v_castId v_y v_x v_height v_width v_flag1 v_flag2 : Int) (f_spriteType : Gen.Score.d4Sprite_spriteType.raw d = .ok v_spriteType) (f_foregroundColor : Gen.Score.d4Sprite_foregroundColor.raw d = .ok v_foregroundColor) (f_backgroundColor : Gen.Score.d4Sprite_backgroundColor.raw d = .ok v_backgroundColor) (f_flags : Gen.Score.d4Sprite_flags.raw d = .ok v_flags) (f_ink_byte : Gen.Score.d4Sprite_ink_byte.raw d = .ok v_ink_byte) (f_castId : Gen.Score.d4Sprite_castId.raw d = .ok v_castId) (f_y : Gen.Score.d4Sprite_y.raw d = .ok v_y) (f_x : Gen.Score.d4Sprite_x.raw d = .ok v_x) (f_height : Gen.Score.d4Sprite_height.raw d = .ok v_height) (f_width : Gen.Score.d4Sprite_width.raw d = .ok v_width) (f_flag1 : Gen.Score.d4Sprite_flag1.raw d = .ok v_flag1) (f_flag2 : Gen.Score.d4Sprite_flag2.raw d = .ok v_flag2) :
+    checkAll Gen.Score.d4Sprite d = .ok () := by
+  simp only [Gen.Score.d4Sprite, checkAll, f_spriteType, f_foregroundColor, f_backgroundColor, f_flags, f_ink_byte, f_castId, f_y, f_x, f_height, f_width, f_flag1, f_flag2, bind, Except.bind]
+
+theorem d4Sprite_check (s : RawSpriteD4) (h : s.Valid) : checkAll Gen.Score.d4Sprite (encSpriteD4 s) = .ok () :=
+  d4Sprite_check_of _ _ _ _ _ _ _ _ _ _ _ _ _ (d4Sprite_r_spriteType s h) (d4Sprite_r_foregroundColor s h) (d4Sprite_r_backgroundColor s h) (d4Sprite_r_flags s h) (d4Sprite_r_ink_byte s h) (d4Sprite_r_castId s h) (d4Sprite_r_y s h) (d4Sprite_r_x s h) (d4Sprite_r_height s h) (d4Sprite_r_width s h) (d4Sprite_r_flag1 s h) (d4Sprite_r_flag2 s h)
+
+theorem d4ReadSprite_of (d : Bytes) (v_spriteType v_foregroundColor v_backgroundColor v_flags v_ink_byte v_castId v_y v_x v_height v_width v_flag2 : Int) (hc : checkAll Gen.Score.d4Sprite d = .ok ()) (f_spriteType : Gen.Score.d4Sprite_spriteType.raw d = .ok v_spriteType) (f_foregroundColor : Gen.Score.d4Sprite_foregroundColor.raw d = .ok v_foregroundColor) (f_backgroundColor : Gen.Score.d4Sprite_backgroundColor.raw d = .ok v_backgroundColor) (f_flags : Gen.Score.d4Sprite_flags.raw d = .ok v_flags) (f_ink_byte : Gen.Score.d4Sprite_ink_byte.raw d = .ok v_ink_byte) (f_castId : Gen.Score.d4Sprite_castId.raw d = .ok v_castId) (f_y : Gen.Score.d4Sprite_y.raw d = .ok v_y) (f_x : Gen.Score.d4Sprite_x.raw d = .ok v_x) (f_height : Gen.Score.d4Sprite_height.raw d = .ok v_height) (f_width : Gen.Score.d4Sprite_width.raw d = .ok v_width) (f_flag2 : Gen.Score.d4Sprite_flag2.raw d = .ok v_flag2) :
+    d4ReadSprite d = .ok (if v_castId > 0 then some ⟨v_spriteType, v_castId, v_foregroundColor, v_backgroundColor, v_ink_byte % 64, some v_flags, v_y, v_x, v_height, v_width, v_ink_byte / 64 % 2, v_flag2 % 65536 / 32768 % 2 ≠ 0, v_flag2 % 65536 / 16384 % 2 ≠ 0⟩ else none) := by
+  simp only [d4ReadSprite, hc, int_of_raw _ _ (rfl : Gen.Score.d4Sprite_spriteType.post = .raw), f_spriteType, int_of_raw _ _ (rfl : Gen.Score.d4Sprite_foregroundColor.post = .raw), f_foregroundColor, int_of_raw _ _ (rfl : Gen.Score.d4Sprite_backgroundColor.post = .raw), f_backgroundColor, int_of_raw _ _ (rfl : Gen.Score.d4Sprite_flags.post = .raw), f_flags, int_of_raw _ _ (rfl : Gen.Score.d4Sprite_ink_byte.post = .raw), f_ink_byte, int_of_raw _ _ (rfl : Gen.Score.d4Sprite_castId.post = .raw), f_castId, int_of_raw _ _ (rfl : Gen.Score.d4Sprite_y.post = .raw), f_y, int_of_raw _ _ (rfl : Gen.Score.d4Sprite_x.post = .raw), f_x, int_of_raw _ _ (rfl : Gen.Score.d4Sprite_height.post = .raw), f_height, int_of_raw _ _ (rfl : Gen.Score.d4Sprite_width.post = .raw), f_width, int_of_raw _ _ (rfl : Gen.Score.d4Sprite_flag2.post = .raw), f_flag2, bind, Except.bind, pure, Except.pure]
+  split <;> rfl
 
 theorem d4ReadSprite_enc (s : RawSpriteD4) (h : s.Valid) : d4ReadSprite (encSpriteD4 s) = .ok (viewSpriteD4 s) := by
-  simp only [d4ReadSprite, d4Sprite_check s h, int_of_raw _ _ (rfl : Gen.Score.d4Sprite_spriteType.post = .raw), d4Sprite_r_spriteType s h, int_of_raw _ _ (rfl : Gen.Score.d4Sprite_foregroundColor.post = .raw), d4Sprite_r_foregroundColor s h, int_of_raw _ _ (rfl : Gen.Score.d4Sprite_backgroundColor.post = .raw), d4Sprite_r_backgroundColor s h, int_of_raw _ _ (rfl : Gen.Score.d4Sprite_flags.post = .raw), d4Sprite_r_flags s h, int_of_raw _ _ (rfl : Gen.Score.d4Sprite_ink_byte.post = .raw), d4Sprite_r_ink_byte s h, int_of_raw _ _ (rfl : Gen.Score.d4Sprite_castId.post = .raw), d4Sprite_r_castId s h, int_of_raw _ _ (rfl : Gen.Score.d4Sprite_y.post = .raw), d4Sprite_r_y s h, int_of_raw _ _ (rfl : Gen.Score.d4Sprite_x.post = .raw), d4Sprite_r_x s h, int_of_raw _ _ (rfl : Gen.Score.d4Sprite_height.post = .raw), d4Sprite_r_height s h, int_of_raw _ _ (rfl : Gen.Score.d4Sprite_width.post = .raw), d4Sprite_r_width s h, int_of_raw _ _ (rfl : Gen.Score.d4Sprite_flag2.post = .raw), d4Sprite_r_flag2 s h, toSigned16_mod s.flag2 (h.2.2.2.2.2.2.2), bind, Except.bind, pure, Except.pure, viewSpriteD4]
-  split <;> rfl
+  rw [d4ReadSprite_of _ _ _ _ _ _ _ _ _ _ _ _ (d4Sprite_check s h) (d4Sprite_r_spriteType s h) (d4Sprite_r_foregroundColor s h) (d4Sprite_r_backgroundColor s h) (d4Sprite_r_flags s h) (d4Sprite_r_ink_byte s h) (d4Sprite_r_castId s h) (d4Sprite_r_y s h) (d4Sprite_r_x s h) (d4Sprite_r_height s h) (d4Sprite_r_width s h) (d4Sprite_r_flag2 s h)]
+  simp only [viewSpriteD4, toSigned16_mod s.flag2 (h.2.2.2.2.2.2.2)]
 
 /-! ### d5ReadMain -/
 
@@ -213,58 +241,67 @@ theorem encMainD5_length (s : RawMainD5) (h : s.Valid) : (encMainD5 s).length = 
 
 theorem d5Main_r_unknown01 (s : RawMainD5) (h : s.Valid) : Gen.Score.d5Main_unknown01.raw (encMainD5 s) = .ok (s.unknown01) := by
   have e : encMainD5 s = ([]) ++ (encS .be 2 s.unknown01 ++ (encS .be 2 s.script ++ encS .be 2 s.unknown03 ++ encS .be 2 s.sound1 ++ encS .be 2 s.unknown05 ++ encS .be 2 s.sound2 ++ encS .be 2 s.unknown07 ++ encS .be 2 s.transCast ++ encS .be 2 s.unknown08 ++ encS .be 2 s.unknown09 ++ encS .be 2 s.fps ++ encS .be 2 s.unknown10)) := by simp [encMainD5, List.append_assoc]
-  rw [e]; exact raw_s16_at _ _ _ (h.1) _ (by simp)
+  rw [e]; exact raw_s16_at _ _ _ _ (h.1) _ (by simp)
 
 theorem d5Main_r_script (s : RawMainD5) (h : s.Valid) : Gen.Score.d5Main_script.raw (encMainD5 s) = .ok (s.script) := by
   have e : encMainD5 s = (encS .be 2 s.unknown01) ++ (encS .be 2 s.script ++ (encS .be 2 s.unknown03 ++ encS .be 2 s.sound1 ++ encS .be 2 s.unknown05 ++ encS .be 2 s.sound2 ++ encS .be 2 s.unknown07 ++ encS .be 2 s.transCast ++ encS .be 2 s.unknown08 ++ encS .be 2 s.unknown09 ++ encS .be 2 s.fps ++ encS .be 2 s.unknown10)) := by simp [encMainD5, List.append_assoc]
-  rw [e]; exact raw_s16_at _ _ _ (h.2.1) _ (by simp)
+  rw [e]; exact raw_s16_at _ _ _ _ (h.2.1) _ (by simp)
 
 theorem d5Main_r_unknown03 (s : RawMainD5) (h : s.Valid) : Gen.Score.d5Main_unknown03.raw (encMainD5 s) = .ok (s.unknown03) := by
   have e : encMainD5 s = (encS .be 2 s.unknown01 ++ encS .be 2 s.script) ++ (encS .be 2 s.unknown03 ++ (encS .be 2 s.sound1 ++ encS .be 2 s.unknown05 ++ encS .be 2 s.sound2 ++ encS .be 2 s.unknown07 ++ encS .be 2 s.transCast ++ encS .be 2 s.unknown08 ++ encS .be 2 s.unknown09 ++ encS .be 2 s.fps ++ encS .be 2 s.unknown10)) := by simp [encMainD5, List.append_assoc]
-  rw [e]; exact raw_s16_at _ _ _ (h.2.2.1) _ (by simp)
+  rw [e]; exact raw_s16_at _ _ _ _ (h.2.2.1) _ (by simp)
 
 theorem d5Main_r_sound1_cast (s : RawMainD5) (h : s.Valid) : Gen.Score.d5Main_sound1_cast.raw (encMainD5 s) = .ok (s.sound1) := by
   have e : encMainD5 s = (encS .be 2 s.unknown01 ++ encS .be 2 s.script ++ encS .be 2 s.unknown03) ++ (encS .be 2 s.sound1 ++ (encS .be 2 s.unknown05 ++ encS .be 2 s.sound2 ++ encS .be 2 s.unknown07 ++ encS .be 2 s.transCast ++ encS .be 2 s.unknown08 ++ encS .be 2 s.unknown09 ++ encS .be 2 s.fps ++ encS .be 2 s.unknown10)) := by simp [encMainD5, List.append_assoc]
-  rw [e]; exact raw_s16_at _ _ _ (h.2.2.2.1) _ (by simp)
+  rw [e]; exact raw_s16_at _ _ _ _ (h.2.2.2.1) _ (by simp)
 
 theorem d5Main_r_unknown05 (s : RawMainD5) (h : s.Valid) : Gen.Score.d5Main_unknown05.raw (encMainD5 s) = .ok (s.unknown05) := by
   have e : encMainD5 s = (encS .be 2 s.unknown01 ++ encS .be 2 s.script ++ encS .be 2 s.unknown03 ++ encS .be 2 s.sound1) ++ (encS .be 2 s.unknown05 ++ (encS .be 2 s.sound2 ++ encS .be 2 s.unknown07 ++ encS .be 2 s.transCast ++ encS .be 2 s.unknown08 ++ encS .be 2 s.unknown09 ++ encS .be 2 s.fps ++ encS .be 2 s.unknown10)) := by simp [encMainD5, List.append_assoc]
-  rw [e]; exact raw_s16_at _ _ _ (h.2.2.2.2.1) _ (by simp)
+  rw [e]; exact raw_s16_at _ _ _ _ (h.2.2.2.2.1) _ (by simp)
 
 theorem d5Main_r_sound2_cast (s : RawMainD5) (h : s.Valid) : Gen.Score.d5Main_sound2_cast.raw (encMainD5 s) = .ok (s.sound2) := by
   have e : encMainD5 s = (encS .be 2 s.unknown01 ++ encS .be 2 s.script ++ encS .be 2 s.unknown03 ++ encS .be 2 s.sound1 ++ encS .be 2 s.unknown05) ++ (encS .be 2 s.sound2 ++ (encS .be 2 s.unknown07 ++ encS .be 2 s.transCast ++ encS .be 2 s.unknown08 ++ encS .be 2 s.unknown09 ++ encS .be 2 s.fps ++ encS .be 2 s.unknown10)) := by simp [encMainD5, List.append_assoc]
-  rw [e]; exact raw_s16_at _ _ _ (h.2.2.2.2.2.1) _ (by simp)
+  rw [e]; exact raw_s16_at _ _ _ _ (h.2.2.2.2.2.1) _ (by simp)
 
 theorem d5Main_r_unknown07 (s : RawMainD5) (h : s.Valid) : Gen.Score.d5Main_unknown07.raw (encMainD5 s) = .ok (s.unknown07) := by
   have e : encMainD5 s = (encS .be 2 s.unknown01 ++ encS .be 2 s.script ++ encS .be 2 s.unknown03 ++ encS .be 2 s.sound1 ++ encS .be 2 s.unknown05 ++ encS .be 2 s.sound2) ++ (encS .be 2 s.unknown07 ++ (encS .be 2 s.transCast ++ encS .be 2 s.unknown08 ++ encS .be 2 s.unknown09 ++ encS .be 2 s.fps ++ encS .be 2 s.unknown10)) := by simp [encMainD5, List.append_assoc]
-  rw [e]; exact raw_s16_at _ _ _ (h.2.2.2.2.2.2.1) _ (by simp)
+  rw [e]; exact raw_s16_at _ _ _ _ (h.2.2.2.2.2.2.1) _ (by simp)
 
 theorem d5Main_r_transition_cast_id (s : RawMainD5) (h : s.Valid) : Gen.Score.d5Main_transition_cast_id.raw (encMainD5 s) = .ok (s.transCast) := by
   have e : encMainD5 s = (encS .be 2 s.unknown01 ++ encS .be 2 s.script ++ encS .be 2 s.unknown03 ++ encS .be 2 s.sound1 ++ encS .be 2 s.unknown05 ++ encS .be 2 s.sound2 ++ encS .be 2 s.unknown07) ++ (encS .be 2 s.transCast ++ (encS .be 2 s.unknown08 ++ encS .be 2 s.unknown09 ++ encS .be 2 s.fps ++ encS .be 2 s.unknown10)) := by simp [encMainD5, List.append_assoc]
-  rw [e]; exact raw_s16_at _ _ _ (h.2.2.2.2.2.2.2.1) _ (by simp)
+  rw [e]; exact raw_s16_at _ _ _ _ (h.2.2.2.2.2.2.2.1) _ (by simp)
 
 theorem d5Main_r_unknown08 (s : RawMainD5) (h : s.Valid) : Gen.Score.d5Main_unknown08.raw (encMainD5 s) = .ok (s.unknown08) := by
   have e : encMainD5 s = (encS .be 2 s.unknown01 ++ encS .be 2 s.script ++ encS .be 2 s.unknown03 ++ encS .be 2 s.sound1 ++ encS .be 2 s.unknown05 ++ encS .be 2 s.sound2 ++ encS .be 2 s.unknown07 ++ encS .be 2 s.transCast) ++ (encS .be 2 s.unknown08 ++ (encS .be 2 s.unknown09 ++ encS .be 2 s.fps ++ encS .be 2 s.unknown10)) := by simp [encMainD5, List.append_assoc]
-  rw [e]; exact raw_s16_at _ _ _ (h.2.2.2.2.2.2.2.2.1) _ (by simp)
+  rw [e]; exact raw_s16_at _ _ _ _ (h.2.2.2.2.2.2.2.2.1) _ (by simp)
 
 theorem d5Main_r_unknown09 (s : RawMainD5) (h : s.Valid) : Gen.Score.d5Main_unknown09.raw (encMainD5 s) = .ok (s.unknown09) := by
   have e : encMainD5 s = (encS .be 2 s.unknown01 ++ encS .be 2 s.script ++ encS .be 2 s.unknown03 ++ encS .be 2 s.sound1 ++ encS .be 2 s.unknown05 ++ encS .be 2 s.sound2 ++ encS .be 2 s.unknown07 ++ encS .be 2 s.transCast ++ encS .be 2 s.unknown08) ++ (encS .be 2 s.unknown09 ++ (encS .be 2 s.fps ++ encS .be 2 s.unknown10)) := by simp [encMainD5, List.append_assoc]
-  rw [e]; exact raw_s16_at _ _ _ (h.2.2.2.2.2.2.2.2.2.1) _ (by simp)
+  rw [e]; exact raw_s16_at _ _ _ _ (h.2.2.2.2.2.2.2.2.2.1) _ (by simp)
 
 theorem d5Main_r_fps (s : RawMainD5) (h : s.Valid) : Gen.Score.d5Main_fps.raw (encMainD5 s) = .ok (s.fps) := by
   have e : encMainD5 s = (encS .be 2 s.unknown01 ++ encS .be 2 s.script ++ encS .be 2 s.unknown03 ++ encS .be 2 s.sound1 ++ encS .be 2 s.unknown05 ++ encS .be 2 s.sound2 ++ encS .be 2 s.unknown07 ++ encS .be 2 s.transCast ++ encS .be 2 s.unknown08 ++ encS .be 2 s.unknown09) ++ (encS .be 2 s.fps ++ (encS .be 2 s.unknown10)) := by simp [encMainD5, List.append_assoc]
-  rw [e]; exact raw_s16_at _ _ _ (h.2.2.2.2.2.2.2.2.2.2.1) _ (by simp)
+  rw [e]; exact raw_s16_at _ _ _ _ (h.2.2.2.2.2.2.2.2.2.2.1) _ (by simp)
 
 theorem d5Main_r_unknown10 (s : RawMainD5) (h : s.Valid) : Gen.Score.d5Main_unknown10.raw (encMainD5 s) = .ok (s.unknown10) := by
   have e : encMainD5 s = (encS .be 2 s.unknown01 ++ encS .be 2 s.script ++ encS .be 2 s.unknown03 ++ encS .be 2 s.sound1 ++ encS .be 2 s.unknown05 ++ encS .be 2 s.sound2 ++ encS .be 2 s.unknown07 ++ encS .be 2 s.transCast ++ encS .be 2 s.unknown08 ++ encS .be 2 s.unknown09 ++ encS .be 2 s.fps) ++ (encS .be 2 s.unknown10 ++ ([])) := by simp [encMainD5, List.append_assoc]
-  rw [e]; exact raw_s16_at _ _ _ (h.2.2.2.2.2.2.2.2.2.2.2) _ (by simp)
+  rw [e]; exact raw_s16_at _ _ _ _ (h.2.2.2.2.2.2.2.2.2.2.2) _ (by simp)
 
-theorem d5Main_check (s : RawMainD5) (h : s.Valid) : checkAll Gen.Score.d5Main (encMainD5 s) = .ok () := by
-  simp only [Gen.Score.d5Main, checkAll, d5Main_r_unknown01 s h, d5Main_r_script s h, d5Main_r_unknown03 s h, d5Main_r_sound1_cast s h, d5Main_r_unknown05 s h, d5Main_r_sound2_cast s h, d5Main_r_unknown07 s h, d5Main_r_transition_cast_id s h, d5Main_r_unknown08 s h, d5Main_r_unknown09 s h, d5Main_r_fps s h, d5Main_r_unknown10 s h, bind, Except.bind]
+theorem d5Main_check_of (d : Bytes) (v_unknown01 v_script v_unknown03 v_sound1_cast v_unknown05 v_sound2_cast v_unknown07 v_transition_cast_id v_unknown08 v_unknown09 v_fps v_unknown10 : Int) (f_unknown01 : Gen.Score.d5Main_unknown01.raw d = .ok v_unknown01) (f_script : Gen.Score.d5Main_script.raw d = .ok v_script) (f_unknown03 : Gen.Score.d5Main_unknown03.raw d = .ok v_unknown03) (f_sound1_cast : Gen.Score.d5Main_sound1_cast.raw d = .ok v_sound1_cast) (f_unknown05 : Gen.Score.d5Main_unknown05.raw d = .ok v_unknown05) (f_sound2_cast : Gen.Score.d5Main_sound2_cast.raw d = .ok v_sound2_cast) (f_unknown07 : Gen.Score.d5Main_unknown07.raw d = .ok v_unknown07) (f_transition_cast_id : Gen.Score.d5Main_transition_cast_id.raw d = .ok v_transition_cast_id) (f_unknown08 : Gen.Score.d5Main_unknown08.raw d = .ok v_unknown08) (f_unknown09 : Gen.Score.d5Main_unknown09.raw d = .ok v_unknown09) (f_fps : Gen.Score.d5Main_fps.raw d = .ok v_fps) (f_unknown10 : Gen.Score.d5Main_unknown10.raw d = .ok v_unknown10) :
+    checkAll Gen.Score.d5Main d = .ok () := by
+  simp only [Gen.Score.d5Main, checkAll, f_unknown01, f_script, f_unknown03, f_sound1_cast, f_unknown05, f_sound2_cast, f_unknown07, f_transition_cast_id, f_unknown08, f_unknown09, f_fps, f_unknown10, bind, Except.bind]
+
+theorem d5Main_check (s : RawMainD5) (h : s.Valid) : checkAll Gen.Score.d5Main (encMainD5 s) = .ok () :=
+  d5Main_check_of _ _ _ _ _ _ _ _ _ _ _ _ _ (d5Main_r_unknown01 s h) (d5Main_r_script s h) (d5Main_r_unknown03 s h) (d5Main_r_sound1_cast s h) (d5Main_r_unknown05 s h) (d5Main_r_sound2_cast s h) (d5Main_r_unknown07 s h) (d5Main_r_transition_cast_id s h) (d5Main_r_unknown08 s h) (d5Main_r_unknown09 s h) (d5Main_r_fps s h) (d5Main_r_unknown10 s h)
+
+theorem d5ReadMain_of (d : Bytes) (v_script v_sound1_cast v_sound2_cast v_transition_cast_id v_fps : Int) (hc : checkAll Gen.Score.d5Main d = .ok ()) (f_script : Gen.Score.d5Main_script.raw d = .ok v_script) (f_sound1_cast : Gen.Score.d5Main_sound1_cast.raw d = .ok v_sound1_cast) (f_sound2_cast : Gen.Score.d5Main_sound2_cast.raw d = .ok v_sound2_cast) (f_transition_cast_id : Gen.Score.d5Main_transition_cast_id.raw d = .ok v_transition_cast_id) (f_fps : Gen.Score.d5Main_fps.raw d = .ok v_fps) :
+    d5ReadMain d = .ok (if v_fps ≠ 0 ∨ v_sound1_cast ≠ 0 ∨ v_sound2_cast ≠ 0 ∨ v_script ≠ 0 then some ⟨v_fps, v_sound1_cast, v_sound2_cast, v_script, .d5 v_transition_cast_id⟩ else none) := by
+  simp only [d5ReadMain, hc, int_of_raw _ _ (rfl : Gen.Score.d5Main_script.post = .raw), f_script, int_of_raw _ _ (rfl : Gen.Score.d5Main_sound1_cast.post = .raw), f_sound1_cast, int_of_raw _ _ (rfl : Gen.Score.d5Main_sound2_cast.post = .raw), f_sound2_cast, int_of_raw _ _ (rfl : Gen.Score.d5Main_transition_cast_id.post = .raw), f_transition_cast_id, int_of_raw _ _ (rfl : Gen.Score.d5Main_fps.post = .raw), f_fps, bind, Except.bind, pure, Except.pure]
+  split <;> rfl
 
 theorem d5ReadMain_enc (s : RawMainD5) (h : s.Valid) : d5ReadMain (encMainD5 s) = .ok (viewMainD5 s) := by
-  simp only [d5ReadMain, d5Main_check s h, int_of_raw _ _ (rfl : Gen.Score.d5Main_script.post = .raw), d5Main_r_script s h, int_of_raw _ _ (rfl : Gen.Score.d5Main_sound1_cast.post = .raw), d5Main_r_sound1_cast s h, int_of_raw _ _ (rfl : Gen.Score.d5Main_sound2_cast.post = .raw), d5Main_r_sound2_cast s h, int_of_raw _ _ (rfl : Gen.Score.d5Main_transition_cast_id.post = .raw), d5Main_r_transition_cast_id s h, int_of_raw _ _ (rfl : Gen.Score.d5Main_fps.post = .raw), d5Main_r_fps s h, bind, Except.bind, pure, Except.pure, viewMainD5]
-  split <;> rfl
+  rw [d5ReadMain_of _ _ _ _ _ _ (d5Main_check s h) (d5Main_r_script s h) (d5Main_r_sound1_cast s h) (d5Main_r_sound2_cast s h) (d5Main_r_transition_cast_id s h) (d5Main_r_fps s h)]
+  simp only [viewMainD5]
 
 /-! ### d5ReadPalette -/
 
@@ -273,38 +310,47 @@ theorem encPalD5_length (s : RawPalD5) (h : s.Valid) : (encPalD5 s).length = 24 
 
 theorem d5Palette_r_unknown01 (s : RawPalD5) (h : s.Valid) : Gen.Score.d5Palette_unknown01.raw (encPalD5 s) = .ok (s.unknown01) := by
   have e : encPalD5 s = ([]) ++ (encS .be 2 s.unknown01 ++ (encS .be 2 s.paletteId ++ [s.fps] ++ [s.opcode] ++ encS .be 2 s.unknown02 ++ encS .be 2 s.unknown03 ++ encS .be 2 s.cycles ++ s.pad)) := by simp [encPalD5, List.append_assoc]
-  rw [e]; exact raw_s16_at _ _ _ (h.1) _ (by simp)
+  rw [e]; exact raw_s16_at _ _ _ _ (h.1) _ (by simp)
 
 theorem d5Palette_r_palette_id (s : RawPalD5) (h : s.Valid) : Gen.Score.d5Palette_palette_id.raw (encPalD5 s) = .ok (s.paletteId) := by
   have e : encPalD5 s = (encS .be 2 s.unknown01) ++ (encS .be 2 s.paletteId ++ ([s.fps] ++ [s.opcode] ++ encS .be 2 s.unknown02 ++ encS .be 2 s.unknown03 ++ encS .be 2 s.cycles ++ s.pad)) := by simp [encPalD5, List.append_assoc]
-  rw [e]; exact raw_s16_at _ _ _ (h.2.1) _ (by simp)
+  rw [e]; exact raw_s16_at _ _ _ _ (h.2.1) _ (by simp)
 
 theorem d5Palette_r_fps (s : RawPalD5) (h : s.Valid) : Gen.Score.d5Palette_fps.raw (encPalD5 s) = .ok (b2i s.fps) := by
   have e : encPalD5 s = (encS .be 2 s.unknown01 ++ encS .be 2 s.paletteId) ++ (s.fps :: ([s.opcode] ++ encS .be 2 s.unknown02 ++ encS .be 2 s.unknown03 ++ encS .be 2 s.cycles ++ s.pad)) := by simp [encPalD5, List.append_assoc]
-  rw [e]; exact raw_u8_at _ _ _ _ (by simp)
+  rw [e]; exact raw_u8_at _ _ _ _ _ (by simp)
 
 theorem d5Palette_r_operation_code (s : RawPalD5) (h : s.Valid) : Gen.Score.d5Palette_operation_code.raw (encPalD5 s) = .ok (b2i s.opcode) := by
   have e : encPalD5 s = (encS .be 2 s.unknown01 ++ encS .be 2 s.paletteId ++ [s.fps]) ++ (s.opcode :: (encS .be 2 s.unknown02 ++ encS .be 2 s.unknown03 ++ encS .be 2 s.cycles ++ s.pad)) := by simp [encPalD5, List.append_assoc]
-  rw [e]; exact raw_u8_at _ _ _ _ (by simp)
+  rw [e]; exact raw_u8_at _ _ _ _ _ (by simp)
 
 theorem d5Palette_r_unknown02 (s : RawPalD5) (h : s.Valid) : Gen.Score.d5Palette_unknown02.raw (encPalD5 s) = .ok (s.unknown02) := by
   have e : encPalD5 s = (encS .be 2 s.unknown01 ++ encS .be 2 s.paletteId ++ [s.fps] ++ [s.opcode]) ++ (encS .be 2 s.unknown02 ++ (encS .be 2 s.unknown03 ++ encS .be 2 s.cycles ++ s.pad)) := by simp [encPalD5, List.append_assoc]
-  rw [e]; exact raw_s16_at _ _ _ (h.2.2.1) _ (by simp)
+  rw [e]; exact raw_s16_at _ _ _ _ (h.2.2.1) _ (by simp)
 
 theorem d5Palette_r_unknown03 (s : RawPalD5) (h : s.Valid) : Gen.Score.d5Palette_unknown03.raw (encPalD5 s) = .ok (s.unknown03) := by
   have e : encPalD5 s = (encS .be 2 s.unknown01 ++ encS .be 2 s.paletteId ++ [s.fps] ++ [s.opcode] ++ encS .be 2 s.unknown02) ++ (encS .be 2 s.unknown03 ++ (encS .be 2 s.cycles ++ s.pad)) := by simp [encPalD5, List.append_assoc]
-  rw [e]; exact raw_s16_at _ _ _ (h.2.2.2.1) _ (by simp)
+  rw [e]; exact raw_s16_at _ _ _ _ (h.2.2.2.1) _ (by simp)
 
 theorem d5Palette_r_cycles (s : RawPalD5) (h : s.Valid) : Gen.Score.d5Palette_cycles.raw (encPalD5 s) = .ok (s.cycles) := by
   have e : encPalD5 s = (encS .be 2 s.unknown01 ++ encS .be 2 s.paletteId ++ [s.fps] ++ [s.opcode] ++ encS .be 2 s.unknown02 ++ encS .be 2 s.unknown03) ++ (encS .be 2 s.cycles ++ (s.pad)) := by simp [encPalD5, List.append_assoc]
-  rw [e]; exact raw_s16_at _ _ _ (h.2.2.2.2.1) _ (by simp)
+  rw [e]; exact raw_s16_at _ _ _ _ (h.2.2.2.2.1) _ (by simp)
 
-theorem d5Palette_check (s : RawPalD5) (h : s.Valid) : checkAll Gen.Score.d5Palette (encPalD5 s) = .ok () := by
-  simp only [Gen.Score.d5Palette, checkAll, d5Palette_r_unknown01 s h, d5Palette_r_palette_id s h, d5Palette_r_fps s h, d5Palette_r_operation_code s h, d5Palette_r_unknown02 s h, d5Palette_r_unknown03 s h, d5Palette_r_cycles s h, bind, Except.bind]
+theorem d5Palette_check_of (d : Bytes) (v_unknown01 v_palette_id v_fps v_operation_code v_unknown02 v_unknown03 v_cycles : Int) (f_unknown01 : Gen.Score.d5Palette_unknown01.raw d = .ok v_unknown01) (f_palette_id : Gen.Score.d5Palette_palette_id.raw d = .ok v_palette_id) (f_fps : Gen.Score.d5Palette_fps.raw d = .ok v_fps) (f_operation_code : Gen.Score.d5Palette_operation_code.raw d = .ok v_operation_code) (f_unknown02 : Gen.Score.d5Palette_unknown02.raw d = .ok v_unknown02) (f_unknown03 : Gen.Score.d5Palette_unknown03.raw d = .ok v_unknown03) (f_cycles : Gen.Score.d5Palette_cycles.raw d = .ok v_cycles) :
+    checkAll Gen.Score.d5Palette d = .ok () := by
+  simp only [Gen.Score.d5Palette, checkAll, f_unknown01, f_palette_id, f_fps, f_operation_code, f_unknown02, f_unknown03, f_cycles, bind, Except.bind]
+
+theorem d5Palette_check (s : RawPalD5) (h : s.Valid) : checkAll Gen.Score.d5Palette (encPalD5 s) = .ok () :=
+  d5Palette_check_of _ _ _ _ _ _ _ _ (d5Palette_r_unknown01 s h) (d5Palette_r_palette_id s h) (d5Palette_r_fps s h) (d5Palette_r_operation_code s h) (d5Palette_r_unknown02 s h) (d5Palette_r_unknown03 s h) (d5Palette_r_cycles s h)
+
+theorem d5ReadPalette_of (d : Bytes) (v_palette_id v_fps v_operation_code v_cycles : Int) (hc : checkAll Gen.Score.d5Palette d = .ok ()) (f_palette_id : Gen.Score.d5Palette_palette_id.raw d = .ok v_palette_id) (f_fps : Gen.Score.d5Palette_fps.raw d = .ok v_fps) (f_operation_code : Gen.Score.d5Palette_operation_code.raw d = .ok v_operation_code) (f_cycles : Gen.Score.d5Palette_cycles.raw d = .ok v_cycles) :
+    d5ReadPalette d = .ok (if v_palette_id ≠ 0 then some ⟨v_fps, operationName v_operation_code, v_palette_id, v_cycles⟩ else none) := by
+  simp only [d5ReadPalette, hc, int_of_raw _ _ (rfl : Gen.Score.d5Palette_palette_id.post = .raw), f_palette_id, int_of_raw _ _ (rfl : Gen.Score.d5Palette_fps.post = .raw), f_fps, int_of_raw _ _ (rfl : Gen.Score.d5Palette_operation_code.post = .raw), f_operation_code, int_of_raw _ _ (rfl : Gen.Score.d5Palette_cycles.post = .raw), f_cycles, bind, Except.bind, pure, Except.pure]
+  split <;> rfl
 
 theorem d5ReadPalette_enc (s : RawPalD5) (h : s.Valid) : d5ReadPalette (encPalD5 s) = .ok (viewPalD5 s) := by
-  simp only [d5ReadPalette, d5Palette_check s h, int_of_raw _ _ (rfl : Gen.Score.d5Palette_palette_id.post = .raw), d5Palette_r_palette_id s h, int_of_raw _ _ (rfl : Gen.Score.d5Palette_fps.post = .raw), d5Palette_r_fps s h, int_of_raw _ _ (rfl : Gen.Score.d5Palette_operation_code.post = .raw), d5Palette_r_operation_code s h, int_of_raw _ _ (rfl : Gen.Score.d5Palette_cycles.post = .raw), d5Palette_r_cycles s h, bind, Except.bind, pure, Except.pure, viewPalD5]
-  split <;> rfl
+  rw [d5ReadPalette_of _ _ _ _ _ (d5Palette_check s h) (d5Palette_r_palette_id s h) (d5Palette_r_fps s h) (d5Palette_r_operation_code s h) (d5Palette_r_cycles s h)]
+  simp only [viewPalD5]
 
 /-! ### d5ReadSprite -/
 
@@ -313,65 +359,74 @@ theorem encSpriteD5_length (s : RawSpriteD5) (h : s.Valid) : (encSpriteD5 s).len
 
 theorem d5Sprite_r_unknown01 (s : RawSpriteD5) (h : s.Valid) : Gen.Score.d5Sprite_unknown01.raw (encSpriteD5 s) = .ok (b2i s.unknown01) := by
   have e : encSpriteD5 s = ([]) ++ (s.unknown01 :: ([s.ink] ++ encS .be 2 s.spriteType ++ encS .be 2 s.castId ++ encS .be 2 s.unknown02 ++ encS .be 2 s.unknown03 ++ [s.fg] ++ [s.bg] ++ encS .be 2 s.y ++ encS .be 2 s.x ++ encS .be 2 s.height ++ encS .be 2 s.width ++ encU16 s.flag2 ++ encU16 s.flag1)) := by simp [encSpriteD5, List.append_assoc]
-  rw [e]; exact raw_u8_at _ _ _ _ (by simp)
+  rw [e]; exact raw_u8_at _ _ _ _ _ (by simp)
 
 theorem d5Sprite_r_ink_byte (s : RawSpriteD5) (h : s.Valid) : Gen.Score.d5Sprite_ink_byte.raw (encSpriteD5 s) = .ok (b2i s.ink) := by
   have e : encSpriteD5 s = ([s.unknown01]) ++ (s.ink :: (encS .be 2 s.spriteType ++ encS .be 2 s.castId ++ encS .be 2 s.unknown02 ++ encS .be 2 s.unknown03 ++ [s.fg] ++ [s.bg] ++ encS .be 2 s.y ++ encS .be 2 s.x ++ encS .be 2 s.height ++ encS .be 2 s.width ++ encU16 s.flag2 ++ encU16 s.flag1)) := by simp [encSpriteD5, List.append_assoc]
-  rw [e]; exact raw_u8_at _ _ _ _ (by simp)
+  rw [e]; exact raw_u8_at _ _ _ _ _ (by simp)
 
 theorem d5Sprite_r_spriteType (s : RawSpriteD5) (h : s.Valid) : Gen.Score.d5Sprite_spriteType.raw (encSpriteD5 s) = .ok (s.spriteType) := by
   have e : encSpriteD5 s = ([s.unknown01] ++ [s.ink]) ++ (encS .be 2 s.spriteType ++ (encS .be 2 s.castId ++ encS .be 2 s.unknown02 ++ encS .be 2 s.unknown03 ++ [s.fg] ++ [s.bg] ++ encS .be 2 s.y ++ encS .be 2 s.x ++ encS .be 2 s.height ++ encS .be 2 s.width ++ encU16 s.flag2 ++ encU16 s.flag1)) := by simp [encSpriteD5, List.append_assoc]
-  rw [e]; exact raw_s16_at _ _ _ (h.1) _ (by simp)
+  rw [e]; exact raw_s16_at _ _ _ _ (h.1) _ (by simp)
 
 theorem d5Sprite_r_castId (s : RawSpriteD5) (h : s.Valid) : Gen.Score.d5Sprite_castId.raw (encSpriteD5 s) = .ok (s.castId) := by
   have e : encSpriteD5 s = ([s.unknown01] ++ [s.ink] ++ encS .be 2 s.spriteType) ++ (encS .be 2 s.castId ++ (encS .be 2 s.unknown02 ++ encS .be 2 s.unknown03 ++ [s.fg] ++ [s.bg] ++ encS .be 2 s.y ++ encS .be 2 s.x ++ encS .be 2 s.height ++ encS .be 2 s.width ++ encU16 s.flag2 ++ encU16 s.flag1)) := by simp [encSpriteD5, List.append_assoc]
-  rw [e]; exact raw_s16_at _ _ _ (h.2.1) _ (by simp)
+  rw [e]; exact raw_s16_at _ _ _ _ (h.2.1) _ (by simp)
 
 theorem d5Sprite_r_unknown02 (s : RawSpriteD5) (h : s.Valid) : Gen.Score.d5Sprite_unknown02.raw (encSpriteD5 s) = .ok (s.unknown02) := by
   have e : encSpriteD5 s = ([s.unknown01] ++ [s.ink] ++ encS .be 2 s.spriteType ++ encS .be 2 s.castId) ++ (encS .be 2 s.unknown02 ++ (encS .be 2 s.unknown03 ++ [s.fg] ++ [s.bg] ++ encS .be 2 s.y ++ encS .be 2 s.x ++ encS .be 2 s.height ++ encS .be 2 s.width ++ encU16 s.flag2 ++ encU16 s.flag1)) := by simp [encSpriteD5, List.append_assoc]
-  rw [e]; exact raw_s16_at _ _ _ (h.2.2.1) _ (by simp)
+  rw [e]; exact raw_s16_at _ _ _ _ (h.2.2.1) _ (by simp)
 
 theorem d5Sprite_r_unknown03 (s : RawSpriteD5) (h : s.Valid) : Gen.Score.d5Sprite_unknown03.raw (encSpriteD5 s) = .ok (s.unknown03) := by
   have e : encSpriteD5 s = ([s.unknown01] ++ [s.ink] ++ encS .be 2 s.spriteType ++ encS .be 2 s.castId ++ encS .be 2 s.unknown02) ++ (encS .be 2 s.unknown03 ++ ([s.fg] ++ [s.bg] ++ encS .be 2 s.y ++ encS .be 2 s.x ++ encS .be 2 s.height ++ encS .be 2 s.width ++ encU16 s.flag2 ++ encU16 s.flag1)) := by simp [encSpriteD5, List.append_assoc]
-  rw [e]; exact raw_s16_at _ _ _ (h.2.2.2.1) _ (by simp)
+  rw [e]; exact raw_s16_at _ _ _ _ (h.2.2.2.1) _ (by simp)
 
 theorem d5Sprite_r_foregroundColor (s : RawSpriteD5) (h : s.Valid) : Gen.Score.d5Sprite_foregroundColor.raw (encSpriteD5 s) = .ok (b2i s.fg) := by
   have e : encSpriteD5 s = ([s.unknown01] ++ [s.ink] ++ encS .be 2 s.spriteType ++ encS .be 2 s.castId ++ encS .be 2 s.unknown02 ++ encS .be 2 s.unknown03) ++ (s.fg :: ([s.bg] ++ encS .be 2 s.y ++ encS .be 2 s.x ++ encS .be 2 s.height ++ encS .be 2 s.width ++ encU16 s.flag2 ++ encU16 s.flag1)) := by simp [encSpriteD5, List.append_assoc]
-  rw [e]; exact raw_u8_at _ _ _ _ (by simp)
+  rw [e]; exact raw_u8_at _ _ _ _ _ (by simp)
 
 theorem d5Sprite_r_backgroundColor (s : RawSpriteD5) (h : s.Valid) : Gen.Score.d5Sprite_backgroundColor.raw (encSpriteD5 s) = .ok (b2i s.bg) := by
   have e : encSpriteD5 s = ([s.unknown01] ++ [s.ink] ++ encS .be 2 s.spriteType ++ encS .be 2 s.castId ++ encS .be 2 s.unknown02 ++ encS .be 2 s.unknown03 ++ [s.fg]) ++ (s.bg :: (encS .be 2 s.y ++ encS .be 2 s.x ++ encS .be 2 s.height ++ encS .be 2 s.width ++ encU16 s.flag2 ++ encU16 s.flag1)) := by simp [encSpriteD5, List.append_assoc]
-  rw [e]; exact raw_u8_at _ _ _ _ (by simp)
+  rw [e]; exact raw_u8_at _ _ _ _ _ (by simp)
 
 theorem d5Sprite_r_y (s : RawSpriteD5) (h : s.Valid) : Gen.Score.d5Sprite_y.raw (encSpriteD5 s) = .ok (s.y) := by
   have e : encSpriteD5 s = ([s.unknown01] ++ [s.ink] ++ encS .be 2 s.spriteType ++ encS .be 2 s.castId ++ encS .be 2 s.unknown02 ++ encS .be 2 s.unknown03 ++ [s.fg] ++ [s.bg]) ++ (encS .be 2 s.y ++ (encS .be 2 s.x ++ encS .be 2 s.height ++ encS .be 2 s.width ++ encU16 s.flag2 ++ encU16 s.flag1)) := by simp [encSpriteD5, List.append_assoc]
-  rw [e]; exact raw_s16_at _ _ _ (h.2.2.2.2.1) _ (by simp)
+  rw [e]; exact raw_s16_at _ _ _ _ (h.2.2.2.2.1) _ (by simp)
 
 theorem d5Sprite_r_x (s : RawSpriteD5) (h : s.Valid) : Gen.Score.d5Sprite_x.raw (encSpriteD5 s) = .ok (s.x) := by
   have e : encSpriteD5 s = ([s.unknown01] ++ [s.ink] ++ encS .be 2 s.spriteType ++ encS .be 2 s.castId ++ encS .be 2 s.unknown02 ++ encS .be 2 s.unknown03 ++ [s.fg] ++ [s.bg] ++ encS .be 2 s.y) ++ (encS .be 2 s.x ++ (encS .be 2 s.height ++ encS .be 2 s.width ++ encU16 s.flag2 ++ encU16 s.flag1)) := by simp [encSpriteD5, List.append_assoc]
-  rw [e]; exact raw_s16_at _ _ _ (h.2.2.2.2.2.1) _ (by simp)
+  rw [e]; exact raw_s16_at _ _ _ _ (h.2.2.2.2.2.1) _ (by simp)
 
 theorem d5Sprite_r_height (s : RawSpriteD5) (h : s.Valid) : Gen.Score.d5Sprite_height.raw (encSpriteD5 s) = .ok (s.height) := by
   have e : encSpriteD5 s = ([s.unknown01] ++ [s.ink] ++ encS .be 2 s.spriteType ++ encS .be 2 s.castId ++ encS .be 2 s.unknown02 ++ encS .be 2 s.unknown03 ++ [s.fg] ++ [s.bg] ++ encS .be 2 s.y ++ encS .be 2 s.x) ++ (encS .be 2 s.height ++ (encS .be 2 s.width ++ encU16 s.flag2 ++ encU16 s.flag1)) := by simp [encSpriteD5, List.append_assoc]
-  rw [e]; exact raw_s16_at _ _ _ (h.2.2.2.2.2.2.1) _ (by simp)
+  rw [e]; exact raw_s16_at _ _ _ _ (h.2.2.2.2.2.2.1) _ (by simp)
 
 theorem d5Sprite_r_width (s : RawSpriteD5) (h : s.Valid) : Gen.Score.d5Sprite_width.raw (encSpriteD5 s) = .ok (s.width) := by
   have e : encSpriteD5 s = ([s.unknown01] ++ [s.ink] ++ encS .be 2 s.spriteType ++ encS .be 2 s.castId ++ encS .be 2 s.unknown02 ++ encS .be 2 s.unknown03 ++ [s.fg] ++ [s.bg] ++ encS .be 2 s.y ++ encS .be 2 s.x ++ encS .be 2 s.height) ++ (encS .be 2 s.width ++ (encU16 s.flag2 ++ encU16 s.flag1)) := by simp [encSpriteD5, List.append_assoc]
-  rw [e]; exact raw_s16_at _ _ _ (h.2.2.2.2.2.2.2.1) _ (by simp)
+  rw [e]; exact raw_s16_at _ _ _ _ (h.2.2.2.2.2.2.2.1) _ (by simp)
 
 theorem d5Sprite_r_flag2 (s : RawSpriteD5) (h : s.Valid) : Gen.Score.d5Sprite_flag2.raw (encSpriteD5 s) = .ok (toSigned 16 s.flag2) := by
   have e : encSpriteD5 s = ([s.unknown01] ++ [s.ink] ++ encS .be 2 s.spriteType ++ encS .be 2 s.castId ++ encS .be 2 s.unknown02 ++ encS .be 2 s.unknown03 ++ [s.fg] ++ [s.bg] ++ encS .be 2 s.y ++ encS .be 2 s.x ++ encS .be 2 s.height ++ encS .be 2 s.width) ++ (encU16 s.flag2 ++ (encU16 s.flag1)) := by simp [encSpriteD5, List.append_assoc]
-  rw [e]; exact raw_u16_at _ _ _ (h.2.2.2.2.2.2.2.2.1) _ (by simp)
+  rw [e]; exact raw_u16_at _ _ _ _ (h.2.2.2.2.2.2.2.2.1) _ (by simp)
 
 theorem d5Sprite_r_flag1 (s : RawSpriteD5) (h : s.Valid) : Gen.Score.d5Sprite_flag1.raw (encSpriteD5 s) = .ok (toSigned 16 s.flag1) := by
   have e : encSpriteD5 s = ([s.unknown01] ++ [s.ink] ++ encS .be 2 s.spriteType ++ encS .be 2 s.castId ++ encS .be 2 s.unknown02 ++ encS .be 2 s.unknown03 ++ [s.fg] ++ [s.bg] ++ encS .be 2 s.y ++ encS .be 2 s.x ++ encS .be 2 s.height ++ encS .be 2 s.width ++ encU16 s.flag2) ++ (encU16 s.flag1 ++ ([])) := by simp [encSpriteD5, List.append_assoc]
-  rw [e]; exact raw_u16_at _ _ _ (h.2.2.2.2.2.2.2.2.2) _ (by simp)
+  rw [e]; exact raw_u16_at _ _ _ _ (h.2.2.2.2.2.2.2.2.2) _ (by simp)
 
-theorem d5Sprite_check (s : RawSpriteD5) (h : s.Valid) : checkAll Gen.Score.d5Sprite (encSpriteD5 s) = .ok () := by
-  simp only [Gen.Score.d5Sprite, checkAll, d5Sprite_r_unknown01 s h, d5Sprite_r_ink_byte s h, d5Sprite_r_spriteType s h, d5Sprite_r_castId s h, d5Sprite_r_unknown02 s h, d5Sprite_r_unknown03 s h, d5Sprite_r_foregroundColor s h, d5Sprite_r_backgroundColor s h, d5Sprite_r_y s h, d5Sprite_r_x s h, d5Sprite_r_height s h, d5Sprite_r_width s h, d5Sprite_r_flag2 s h, d5Sprite_r_flag1 s h, bind, Except.bind]
+theorem d5Sprite_check_of (d : Bytes) (v_unknown01 v_ink_byte v_spriteType v_castId v_unknown02 v_unknown03 v_foregroundColor v_backgroundColor v_y v_x v_height v_width v_flag2 v_flag1 : Int) (f_unknown01 : Gen.Score.d5Sprite_unknown01.raw d = .ok v_unknown01) (f_ink_byte : Gen.Score.d5Sprite_ink_byte.raw d = .ok v_ink_byte) (f_spriteType : Gen.Score.d5Sprite_spriteType.raw d = .ok v_spriteType) (f_castId : Gen.Score.d5Sprite_castId.raw d = .ok v_castId) (f_unknown02 : Gen.Score.d5Sprite_unknown02.raw d = .ok v_unknown02) (f_unknown03 : Gen.Score.d5Sprite_unknown03.raw d = .ok v_unknown03) (f_foregroundColor : Gen.Score.d5Sprite_foregroundColor.raw d = .ok v_foregroundColor) (f_backgroundColor : Gen.Score.d5Sprite_backgroundColor.raw d = .ok v_backgroundColor) (f_y : Gen.Score.d5Sprite_y.raw d = .ok v_y) (f_x : Gen.Score.d5Sprite_x.raw d = .ok v_x) (f_height : Gen.Score.d5Sprite_height.raw d = .ok v_height) (f_width : Gen.Score.d5Sprite_width.raw d = .ok v_width) (f_flag2 : Gen.Score.d5Sprite_flag2.raw d = .ok v_flag2) (f_flag1 : Gen.Score.d5Sprite_flag1.raw d = .ok v_flag1) :
+    checkAll Gen.Score.d5Sprite d = .ok () := by
+  simp only [Gen.Score.d5Sprite, checkAll, f_unknown01, f_ink_byte, f_spriteType, f_castId, f_unknown02, f_unknown03, f_foregroundColor, f_backgroundColor, f_y, f_x, f_height, f_width, f_flag2, f_flag1, bind, Except.bind]
+
+theorem d5Sprite_check (s : RawSpriteD5) (h : s.Valid) : checkAll Gen.Score.d5Sprite (encSpriteD5 s) = .ok () :=
+  d5Sprite_check_of _ _ _ _ _ _ _ _ _ _ _ _ _ _ _ (d5Sprite_r_unknown01 s h) (d5Sprite_r_ink_byte s h) (d5Sprite_r_spriteType s h) (d5Sprite_r_castId s h) (d5Sprite_r_unknown02 s h) (d5Sprite_r_unknown03 s h) (d5Sprite_r_foregroundColor s h) (d5Sprite_r_backgroundColor s h) (d5Sprite_r_y s h) (d5Sprite_r_x s h) (d5Sprite_r_height s h) (d5Sprite_r_width s h) (d5Sprite_r_flag2 s h) (d5Sprite_r_flag1 s h)
+
+theorem d5ReadSprite_of (d : Bytes) (v_ink_byte v_spriteType v_castId v_foregroundColor v_backgroundColor v_y v_x v_height v_width v_flag2 : Int) (hc : checkAll Gen.Score.d5Sprite d = .ok ()) (f_ink_byte : Gen.Score.d5Sprite_ink_byte.raw d = .ok v_ink_byte) (f_spriteType : Gen.Score.d5Sprite_spriteType.raw d = .ok v_spriteType) (f_castId : Gen.Score.d5Sprite_castId.raw d = .ok v_castId) (f_foregroundColor : Gen.Score.d5Sprite_foregroundColor.raw d = .ok v_foregroundColor) (f_backgroundColor : Gen.Score.d5Sprite_backgroundColor.raw d = .ok v_backgroundColor) (f_y : Gen.Score.d5Sprite_y.raw d = .ok v_y) (f_x : Gen.Score.d5Sprite_x.raw d = .ok v_x) (f_height : Gen.Score.d5Sprite_height.raw d = .ok v_height) (f_width : Gen.Score.d5Sprite_width.raw d = .ok v_width) (f_flag2 : Gen.Score.d5Sprite_flag2.raw d = .ok v_flag2) :
+    d5ReadSprite d = .ok (if v_castId > 0 then some ⟨v_spriteType, v_castId, v_foregroundColor, v_backgroundColor, v_ink_byte % 64, none, v_y, v_x, v_height, v_width, v_ink_byte / 64 % 2, v_flag2 % 65536 / 32768 % 2 ≠ 0, v_flag2 % 65536 / 16384 % 2 ≠ 0⟩ else none) := by
+  simp only [d5ReadSprite, hc, int_of_raw _ _ (rfl : Gen.Score.d5Sprite_ink_byte.post = .raw), f_ink_byte, int_of_raw _ _ (rfl : Gen.Score.d5Sprite_spriteType.post = .raw), f_spriteType, int_of_raw _ _ (rfl : Gen.Score.d5Sprite_castId.post = .raw), f_castId, int_of_raw _ _ (rfl : Gen.Score.d5Sprite_foregroundColor.post = .raw), f_foregroundColor, int_of_raw _ _ (rfl : Gen.Score.d5Sprite_backgroundColor.post = .raw), f_backgroundColor, int_of_raw _ _ (rfl : Gen.Score.d5Sprite_y.post = .raw), f_y, int_of_raw _ _ (rfl : Gen.Score.d5Sprite_x.post = .raw), f_x, int_of_raw _ _ (rfl : Gen.Score.d5Sprite_height.post = .raw), f_height, int_of_raw _ _ (rfl : Gen.Score.d5Sprite_width.post = .raw), f_width, int_of_raw _ _ (rfl : Gen.Score.d5Sprite_flag2.post = .raw), f_flag2, bind, Except.bind, pure, Except.pure]
+  split <;> rfl
 
 theorem d5ReadSprite_enc (s : RawSpriteD5) (h : s.Valid) : d5ReadSprite (encSpriteD5 s) = .ok (viewSpriteD5 s) := by
-  simp only [d5ReadSprite, d5Sprite_check s h, int_of_raw _ _ (rfl : Gen.Score.d5Sprite_ink_byte.post = .raw), d5Sprite_r_ink_byte s h, int_of_raw _ _ (rfl : Gen.Score.d5Sprite_spriteType.post = .raw), d5Sprite_r_spriteType s h, int_of_raw _ _ (rfl : Gen.Score.d5Sprite_castId.post = .raw), d5Sprite_r_castId s h, int_of_raw _ _ (rfl : Gen.Score.d5Sprite_foregroundColor.post = .raw), d5Sprite_r_foregroundColor s h, int_of_raw _ _ (rfl : Gen.Score.d5Sprite_backgroundColor.post = .raw), d5Sprite_r_backgroundColor s h, int_of_raw _ _ (rfl : Gen.Score.d5Sprite_y.post = .raw), d5Sprite_r_y s h, int_of_raw _ _ (rfl : Gen.Score.d5Sprite_x.post = .raw), d5Sprite_r_x s h, int_of_raw _ _ (rfl : Gen.Score.d5Sprite_height.post = .raw), d5Sprite_r_height s h, int_of_raw _ _ (rfl : Gen.Score.d5Sprite_width.post = .raw), d5Sprite_r_width s h, int_of_raw _ _ (rfl : Gen.Score.d5Sprite_flag2.post = .raw), d5Sprite_r_flag2 s h, toSigned16_mod s.flag2 (h.2.2.2.2.2.2.2.2.1), bind, Except.bind, pure, Except.pure, viewSpriteD5]
-  split <;> rfl
+  rw [d5ReadSprite_of _ _ _ _ _ _ _ _ _ _ _ (d5Sprite_check s h) (d5Sprite_r_ink_byte s h) (d5Sprite_r_spriteType s h) (d5Sprite_r_castId s h) (d5Sprite_r_foregroundColor s h) (d5Sprite_r_backgroundColor s h) (d5Sprite_r_y s h) (d5Sprite_r_x s h) (d5Sprite_r_height s h) (d5Sprite_r_width s h) (d5Sprite_r_flag2 s h)]
+  simp only [viewSpriteD5, toSigned16_mod s.flag2 (h.2.2.2.2.2.2.2.2.1)]
 
 end Drx.Vwsc
